@@ -1,18 +1,32 @@
-"""C13 - A profile generated from a beacon configuration is valid and faithful (structural part)."""
+"""C13 - A profile generated from a beacon configuration is valid and faithful (structural part).
+
+The rules of this module do not match the *spelling* of the generator code.  Most of them evaluate the functions they
+talk about with a small partial evaluator (section "partial evaluator" below) on concrete members of the finite
+vocabularies of the property (executors, BeaconGate names, transform opcodes, sample byte strings) and look at what
+the code *does* with them: which builder primitive is called on which block with which name and arguments.  Early
+returns, `continue`, inverted tests, conditional expressions, renamed locals, hoisted constants and extracted helpers
+all lead to the same observations.  Whatever the evaluator cannot evaluate makes the obligation *undecided*.
+"""
 
 from __future__ import annotations
 
 import ast
+import collections
+import copy
+import operator
 from typing import Dict, List, Optional, Set, Tuple
 
 from csverif import tables
-from csverif.astutil import assignments_to, body_walk, compare_parts, const_eval, dotted, fn_calls, is_const, kwarg, NotConst, params, src, statements, strip_cast
+from csverif.astutil import body_walk, const_eval, dotted, fn_calls, kwarg, NotConst, param_defaults, params, src, statements
 from csverif.grammar import Grammar
-from csverif.q import FuncView, dominating_conditions, guarded_by, origin, reaching_origins
-from rules.c11 import BUILDER_RULES, aliases_of, block_aliases_of
+from csverif.q import FuncView, dominating_conditions, inline
+from rules.c11 import BUILDER_RULES, HELPER_FIXED_NAME, aliases_of, block_aliases_of
 
 HELPER_ARITY = {"set_option": 1, "_enable": 0, "_pair": 2}
 ATTACH = {"set_config_block", "set_non_empty_config_block"}
+# builder primitives (methods of ConfigBlock / C2Profile that put one tree node into a block) -> number of strings
+PRIM_ARITY = {"set_option": 1, "_enable": 0, "_pair": 2, "_header": 2, "_parameter": 2}
+PRIMS = set(PRIM_ARITY) | ATTACH
 
 
 def _c(node):
@@ -22,74 +36,1217 @@ def _c(node):
         return None
 
 
+# ============================================================================ partial evaluator
 class Unknown(Exception):
+    """The evaluator met something it does not model: the rule that asked is undecided."""
+
+
+class _Break(Exception):
     pass
 
 
-def str_eval(e: ast.AST, env: Dict[str, object]):
-    """Concrete evaluation of a small string expression language over a finite domain."""
-    if isinstance(e, ast.Constant):
+class _Continue(Exception):
+    pass
+
+
+class _Return(Exception):
+    def __init__(self, value):
+        self.value = value
+
+
+class _Raised(Exception):
+    """The evaluated code raises."""
+
+    def __init__(self, name, node=None):
+        Exception.__init__(self, name)
+        self.name = name
+        self.node = node
+
+
+class _Op:
+    """A value nothing is known about."""
+
+    def __init__(self, tag="?"):
+        self.tag = tag
+
+    def __repr__(self):
+        return f"<{self.tag}>"
+
+    def __str__(self):
+        return "<arg>"
+
+    def __format__(self, spec):
+        return "<arg>"
+
+
+class _Glob(_Op):
+    """A global name that is neither a builtin, an enum, a class nor a function of the package (logger, io, Tree ...)."""
+
+    def __init__(self, name):
+        _Op.__init__(self, name)
+        self.name = name
+
+
+class _ClsRef(_Op):
+    def __init__(self, name):
+        _Op.__init__(self, "class " + name)
+        self.name = name
+
+
+class _FnRef(_Op):
+    def __init__(self, func):
+        _Op.__init__(self, "function " + func.qualname)
+        self.func = func
+
+
+class _EnumCls(_Op):
+    def __init__(self, name, members):
+        _Op.__init__(self, "enum " + name)
+        self.name = name
+        self.members = members
+
+
+class _EnumVal:
+    def __init__(self, cls, name, value):
+        self.cls, self.name, self.value = cls, name, value
+
+    def __eq__(self, other):
+        if isinstance(other, _EnumVal):
+            return self.cls == other.cls and self.name == other.name
+        if isinstance(other, int) and not isinstance(other, bool):
+            return self.value == other
+        return False
+
+    def __ne__(self, other):
+        return not self.__eq__(other)
+
+    def __hash__(self):
+        return hash(self.value)
+
+    def __bool__(self):
+        return bool(self.value)
+
+    def __repr__(self):
+        return f"{self.cls}.{self.name}"
+
+    __str__ = __repr__
+
+    def __format__(self, spec):
+        return format(repr(self), spec) if not spec or spec[-1] in "s<>^" else format(self.value, spec)
+
+
+class _Attr(_Op):
+    def __init__(self, base, name):
+        _Op.__init__(self, _path(base) + "." + name)
+        self.base, self.name = base, name
+
+    def __eq__(self, other):
+        return isinstance(other, _Attr) and other.base is self.base and other.name == self.name
+
+    def __hash__(self):
+        return hash((id(self.base), self.name))
+
+
+class _Obj(_Op):
+    """Result of a call that is not evaluated.  `cls` is set when the callee is a class of the package (a builder
+    object); `recv` is the receiver when the callee was a method of another opaque value."""
+
+    def __init__(self, callee, args=(), kwargs=None, node=None, cls=None, recv=None):
+        _Op.__init__(self, callee + "()")
+        self.callee, self.args, self.kwargs, self.node, self.cls, self.recv = callee, list(args), dict(kwargs or {}), node, cls, recv
+        self.attrs: Dict[str, object] = {}
+
+
+class _Sym(_Obj):
+    """A parameter of the function under evaluation (self, config, data ...)."""
+
+    def __init__(self, name, cls=None):
+        _Obj.__init__(self, name, cls=cls)
+        self.tag = name
+        self.name = name
+
+
+class _Closure:
+    def __init__(self, node, env):
+        self.node, self.env = node, env
+
+
+class _Ev:
+    """One call on a value the evaluator does not look into."""
+
+    def __init__(self, recv, attr, args, kwargs, node, prim=None, result=None):
+        self.recv, self.attr, self.args, self.kwargs, self.node, self.prim, self.result = recv, attr, args, kwargs, node, prim, result
+
+    def __repr__(self):
+        return f"{_path(self.recv)}.{self.attr}({', '.join(map(_show, self.args))})"
+
+
+def _path(v) -> str:
+    if isinstance(v, _Attr):
+        return _path(v.base) + "." + v.name
+    if isinstance(v, (_Glob, _ClsRef, _Sym)):
+        return v.name
+    if isinstance(v, _Obj):
+        return v.callee + "()"
+    return repr(v)
+
+
+def _root(v):
+    seen = 0
+    while seen < 20:
+        seen += 1
+        if isinstance(v, _Attr):
+            v = v.base
+        elif isinstance(v, _Obj) and v.recv is not None:
+            v = v.recv
+        else:
+            break
+    return v
+
+
+def _show(v, depth=0) -> str:
+    """Structural text of a value (object identities and source positions left out)."""
+    if depth > 8:
+        return "..."
+    if isinstance(v, _Sym):
+        return v.name
+    if isinstance(v, _Obj):
+        parts = [_show(a, depth + 1) for a in v.args] + [f"{k}={_show(x, depth + 1)}" for k, x in sorted(v.kwargs.items())]
+        return f"{v.callee}({', '.join(parts)})"
+    if isinstance(v, _Op):
+        return f"<{v.tag}>"
+    if isinstance(v, (list, tuple)):
+        inner = ", ".join(_show(x, depth + 1) for x in v)
+        return f"[{inner}]" if isinstance(v, list) else f"({inner})"
+    if isinstance(v, dict):
+        return "{" + ", ".join(f"{_show(k, depth + 1)}: {_show(x, depth + 1)}" for k, x in v.items()) + "}"
+    return repr(v)
+
+
+def _opaque(v) -> bool:
+    return isinstance(v, _Op)
+
+
+def _has_opaque(v, depth=0) -> bool:
+    if isinstance(v, _Op):
+        return True
+    if depth < 3 and isinstance(v, (list, tuple, set, frozenset)):
+        return any(_has_opaque(x, depth + 1) for x in v)
+    if depth < 3 and isinstance(v, dict):
+        return any(_has_opaque(x, depth + 1) for x in v.values())
+    return False
+
+
+_SAFE_TYPES = (str, bytes, bytearray, int, float, bool, type(None), list, tuple, dict, set, frozenset, range,
+               type({}.items()), type({}.keys()), type({}.values()))
+_BUILTINS = {
+    "list": list, "dict": dict, "str": str, "int": int, "bytes": bytes, "tuple": tuple, "set": set, "bool": bool, "float": float,
+    "frozenset": frozenset, "bytearray": bytearray, "len": len, "repr": repr, "sorted": sorted, "enumerate": enumerate, "zip": zip,
+    "range": range, "reversed": reversed, "any": any, "all": all, "min": min, "max": max, "sum": sum, "chr": chr, "ord": ord,
+    "hex": hex, "abs": abs, "isinstance": isinstance, "getattr": getattr, "callable": callable, "hasattr": hasattr, "iter": iter,
+    "next": next, "object": object,
+}
+_BINOPS = {ast.Add: operator.add, ast.Sub: operator.sub, ast.Mult: operator.mul, ast.Mod: operator.mod, ast.FloorDiv: operator.floordiv,
+           ast.Div: operator.truediv, ast.BitOr: operator.or_, ast.BitAnd: operator.and_, ast.BitXor: operator.xor, ast.LShift: operator.lshift,
+           ast.RShift: operator.rshift, ast.Pow: operator.pow}
+_IBINOPS = {ast.Add: operator.iadd, ast.Sub: operator.isub, ast.BitOr: operator.ior, ast.BitAnd: operator.iand, ast.Mult: operator.imul}
+_CMPOPS = {ast.Lt: operator.lt, ast.LtE: operator.le, ast.Gt: operator.gt, ast.GtE: operator.ge}
+_STEP_LIMIT = 100000
+_PATH_LIMIT = 96
+_DEPTH_LIMIT = 5
+
+
+class _Oracle:
+    """Decisions for tests whose value is unknown; `_paths` enumerates every decision vector."""
+
+    def __init__(self, prefix=()):
+        self.prefix = list(prefix)
+        self.made: List[bool] = []
+
+    def decide(self) -> bool:
+        i = len(self.made)
+        v = self.prefix[i] if i < len(self.prefix) else True
+        self.made.append(v)
+        return v
+
+
+def _paths(run):
+    """run(oracle) -> result, for every combination of outcomes of the unknown tests met on the way."""
+    out = []
+    stack = [[]]
+    while stack:
+        p = stack.pop()
+        o = _Oracle(p)
+        out.append(run(o))
+        for i in range(len(p), len(o.made)):
+            stack.append(o.made[:i] + [False])
+        if len(out) > _PATH_LIMIT:
+            raise Unknown("too many paths")
+    return out
+
+
+def _enum_table(ctx) -> Dict[str, Dict[str, int]]:
+    t = getattr(ctx, "_c13_enums", None)
+    if t is None:
+        t = {}
+        for cd in ctx.cdefs("beacon").values():
+            for name, e in cd.enums.items():
+                t[name] = dict(e.members)
+            for py, cname in getattr(cd, "aliases", {}).items():
+                if cname in cd.enums:
+                    t.setdefault(py, dict(cd.enums[cname].members))
+        ctx._c13_enums = t
+    return t
+
+
+class _Interp:
+    """Evaluates statements of package code on partially known values.
+
+    * data (str, bytes, numbers, containers) is computed for real, with the methods of the builtin types;
+    * everything else is opaque: attribute reads give `_Attr`, calls give `_Obj` and are recorded in `events`;
+    * a test on an opaque value asks the oracle (both outcomes are explored by `_paths`);
+    * a loop over an opaque iterable runs its body once with opaque targets (or over the items the `iter` hook supplies),
+      a `while` loop with an unknown / constant-true test runs its body once;
+    * calls of methods of package classes that are not builder primitives are evaluated (bounded depth).
+    Nothing of the package is imported or executed: the evaluator walks the parsed AST only."""
+
+    def __init__(self, ctx, modname: str, oracle: _Oracle, hooks: Optional[dict] = None, descend=True):
+        self.ctx = ctx
+        self.modname = modname
+        self.mod = ctx.repo.module(modname)
+        self.oracle = oracle
+        self.hooks = hooks or {}
+        self.descend = descend
+        self.events: List[_Ev] = []
+        self.flags: Set[str] = set()
+        self.yields: List[object] = []
+        self.nsteps = 0
+        self.depth = 0
+        self._globals: Dict[str, object] = {}
+        self._glob_busy: Set[str] = set()
+
+    # ------------------------------------------------------------------ package lookups
+    def _find_class(self, name: str) -> Optional[Tuple[str, ast.ClassDef]]:
+        if name in self.mod.classes:
+            return self.modname, self.mod.classes[name]
+        for mn, m in self.ctx.repo.modules.items():
+            if name in m.classes:
+                return mn, m.classes[name]
+        return None
+
+    def _mro(self, name: str) -> List[Tuple[str, ast.ClassDef]]:
+        out, seen = [], set()
+        todo = [name]
+        while todo:
+            n = todo.pop(0)
+            if n in seen:
+                continue
+            seen.add(n)
+            fc = self._find_class(n)
+            if fc is None:
+                continue
+            out.append(fc)
+            for b in fc[1].bases:
+                d = dotted(b)
+                if d:
+                    todo.append(d.split(".")[-1])
+        return out
+
+    def method(self, clsname: str, attr: str, hops=0):
+        """-> ("prim", name, None) | ("func", name, Func) | ("const", name, expr) | None for attribute `attr` of a package class."""
+        for mn, cnode in self._mro(clsname):
+            for st in cnode.body:
+                if isinstance(st, (ast.FunctionDef, ast.AsyncFunctionDef)) and st.name == attr:
+                    if attr in PRIMS:
+                        return ("prim", attr, None)
+                    f = self.ctx.repo.module(mn).funcs.get(f"{cnode.name}.{attr}")
+                    return ("func", attr, f) if f is not None else None
+                tgt = None
+                if isinstance(st, ast.Assign) and len(st.targets) == 1 and isinstance(st.targets[0], ast.Name):
+                    tgt, val = st.targets[0].id, st.value
+                elif isinstance(st, ast.AnnAssign) and isinstance(st.target, ast.Name) and st.value is not None:
+                    tgt, val = st.target.id, st.value
+                if tgt == attr:
+                    d = dotted(val)
+                    if d and "." in d and hops < 4:
+                        c2, a2 = d.rsplit(".", 1)
+                        if self._find_class(c2.split(".")[-1]) is not None:
+                            return self.method(c2.split(".")[-1], a2, hops + 1)
+                    return ("const", attr, val)
+        return None
+
+    def glob(self, name: str):
+        if name in self._globals:
+            return self._globals[name]
+        v = self._glob(name)
+        self._globals[name] = v
+        return v
+
+    def _glob(self, name: str):
+        if name in _BUILTINS:
+            return _BUILTINS[name]
+        enums = _enum_table(self.ctx)
+        if name in enums:
+            return _EnumCls(name, enums[name])
+        if self._find_class(name) is not None:
+            return _ClsRef(name)
+        if name in self.mod.consts and name not in self._glob_busy:
+            self._glob_busy.add(name)
+            try:
+                v = self.eval(self.mod.consts[name], {})
+                if not _has_opaque(v):
+                    return v
+            except (Unknown, _Raised):
+                pass
+            finally:
+                self._glob_busy.discard(name)
+            return _Glob(name)
+        if name in self.mod.funcs:
+            return _FnRef(self.mod.funcs[name])
+        for m in self.ctx.repo.modules.values():
+            if name in m.funcs and "." not in name:
+                return _FnRef(m.funcs[name])
+        return _Glob(name)
+
+    # ------------------------------------------------------------------ truth
+    def truth(self, v) -> bool:
+        if isinstance(v, _Obj) and v.cls is not None:
+            for special in ("__bool__", "__len__"):
+                if self.method(v.cls, special) is not None:
+                    return self.oracle.decide()
+            return True
+        if isinstance(v, (_ClsRef, _FnRef, _EnumCls, _Closure)):
+            return True
+        if isinstance(v, _Attr) and v.name == "children" and isinstance(v.base, _Attr) and v.base.name == "tree" and isinstance(v.base.base, _Obj):
+            known = self.block_nonempty(v.base.base)
+            if known is not None:
+                return known
+        if isinstance(v, _Op):
+            return self.oracle.decide()
+        try:
+            return bool(v)
+        except Exception:
+            raise Unknown("truth value of " + repr(v)[:40])
+
+    def block_nonempty(self, obj: _Obj, depth=0) -> Optional[bool]:
+        """Does builder object `obj` have children so far?  Model of the ConfigBlock primitives (each set_option / _enable /
+        set_config_block call and each pair adds one child; set_non_empty_config_block adds one iff the child block has
+        children; constructor keywords go through the same primitives).  None when not known."""
+        if obj.cls is None or depth > 4 or isinstance(obj, _Sym):
+            return None
+        m = self.method(obj.cls, "tree")
+        if m is not None:
+            return True if obj.cls == "DataTransformBlock" else None  # a computed tree: data transforms always have their two parts
+        if obj.kwargs or obj.args:
+            return True if not obj.args and all(not _opaque(v) or isinstance(v, _Obj) for v in obj.kwargs.values()) and obj.kwargs else None
+        unknown = False
+        for ev in self.events:
+            if ev.recv is not obj:
+                continue
+            if ev.prim is None:
+                unknown = True
+            elif ev.prim in ("set_option", "_enable", "set_config_block"):
+                return True
+            elif ev.prim == "set_non_empty_config_block":
+                child = _ev_value(ev)
+                k = self.block_nonempty(child, depth + 1) if isinstance(child, _Obj) else None
+                if k:
+                    return True
+                unknown = unknown or k is None
+            else:
+                val = _ev_value(ev)
+                if _opaque(val) or val is None:
+                    unknown = True
+                else:
+                    try:
+                        if len(list(val)) > 0:
+                            return True
+                    except TypeError:
+                        unknown = True
+        return None if unknown else False
+
+    # ------------------------------------------------------------------ expressions
+    def eval(self, e: ast.AST, env: dict):
+        m = getattr(self, "e_" + type(e).__name__, None)
+        if m is None:
+            raise Unknown("expression " + type(e).__name__)
+        return m(e, env)
+
+    def e_Constant(self, e, env):
         return e.value
-    d = dotted(e)
-    if d is not None and d in env:
-        return env[d]
-    if isinstance(e, ast.IfExp):
-        return str_eval(e.body, env) if bool_eval(e.test, env) else str_eval(e.orelse, env)
-    if isinstance(e, ast.Call) and isinstance(e.func, ast.Attribute):
-        m = e.func.attr
-        if m == "format" and isinstance(_c(e.func.value), str):
-            fmt = _c(e.func.value)
-            args = []
-            for a in e.args:
+
+    def e_Name(self, e, env):
+        if e.id in env:
+            return env[e.id]
+        return self.glob(e.id)
+
+    def e_Tuple(self, e, env):
+        return tuple(self._elts(e.elts, env))
+
+    def e_List(self, e, env):
+        return self._elts(e.elts, env)
+
+    def e_Set(self, e, env):
+        try:
+            return set(self._elts(e.elts, env))
+        except TypeError:
+            raise _Raised("TypeError", e)
+
+    def _elts(self, elts, env) -> list:
+        out = []
+        for x in elts:
+            if isinstance(x, ast.Starred):
+                v = self.eval(x.value, env)
+                if _opaque(v):
+                    raise Unknown("starred opaque value")
+                out.extend(list(v))
+            else:
+                out.append(self.eval(x, env))
+        return out
+
+    def e_Dict(self, e, env):
+        d = {}
+        for k, v in zip(e.keys, e.values):
+            if k is None:
+                inner = self.eval(v, env)
+                if _opaque(inner):
+                    raise Unknown("** of opaque value")
+                d.update(inner)
+            else:
                 try:
-                    args.append(str_eval(a, env))
-                except Unknown:
-                    args.append("<arg>")
-            return fmt.format(*args)
-        recv = str_eval(e.func.value, env)
-        args = [str_eval(a, env) for a in e.args]
-        if m in ("lower", "upper", "strip", "rstrip", "lstrip", "replace", "title", "capitalize") and isinstance(recv, str):
-            return getattr(recv, m)(*args)
-        if m == "partition" and isinstance(recv, str):
-            return recv.partition(*args)
-    if isinstance(e, ast.Call) and dotted(e.func) == "len" and len(e.args) == 1:
-        return len(str_eval(e.args[0], env))
-    if isinstance(e, ast.Subscript):
-        base = str_eval(e.value, env)
-        if isinstance(e.slice, ast.Slice):
-            return base[_c(e.slice.lower):_c(e.slice.upper)]
-        return base[_c(e.slice)]
-    if isinstance(e, ast.JoinedStr):
+                    d[self.eval(k, env)] = self.eval(v, env)
+                except TypeError:
+                    raise _Raised("TypeError", e)
+        return d
+
+    def e_IfExp(self, e, env):
+        return self.eval(e.body, env) if self.truth(self.eval(e.test, env)) else self.eval(e.orelse, env)
+
+    def e_BoolOp(self, e, env):
+        v = None
+        for x in e.values:
+            v = self.eval(x, env)
+            t = self.truth(v)
+            if isinstance(e.op, ast.And) and not t:
+                return v
+            if isinstance(e.op, ast.Or) and t:
+                return v
+        return v
+
+    def e_UnaryOp(self, e, env):
+        v = self.eval(e.operand, env)
+        if isinstance(e.op, ast.Not):
+            return not self.truth(v)
+        if _opaque(v):
+            return _Op("unary")
+        try:
+            if isinstance(e.op, ast.USub):
+                return -v
+            if isinstance(e.op, ast.UAdd):
+                return +v
+            return ~v
+        except Exception:
+            raise _Raised("TypeError", e)
+
+    def e_BinOp(self, e, env):
+        l, r = self.eval(e.left, env), self.eval(e.right, env)
+        return self._binop(type(e.op), l, r, e, _BINOPS)
+
+    def _binop(self, op, l, r, node, table):
+        fn = table.get(op) or _BINOPS.get(op)
+        if fn is None:
+            raise Unknown("operator " + op.__name__)
+        if _opaque(l) or (_opaque(r) and not (op is ast.Mod and isinstance(l, str))):
+            return _Op("binop")
+        try:
+            return fn(l, r)
+        except Exception as ex:
+            if _has_opaque(l) or _has_opaque(r):
+                return _Op("binop")
+            raise _Raised(type(ex).__name__, node)
+
+    def e_Compare(self, e, env):
+        left = self.eval(e.left, env)
+        res = True
+        for op, rn in zip(e.ops, e.comparators):
+            right = self.eval(rn, env)
+            res = self._cmp(op, left, right, e)
+            if _opaque(res):
+                return res if len(e.ops) == 1 else _Op("compare")
+            if not res:
+                return False
+            left = right
+        return res
+
+    def _identity_known(self, v) -> bool:
+        return not isinstance(v, _Op) or (isinstance(v, _Obj) and v.cls is not None) or isinstance(v, (_ClsRef, _FnRef, _EnumCls))
+
+    def _cmp(self, op, l, r, node):
+        if isinstance(op, (ast.Is, ast.IsNot)):
+            if self._identity_known(l) and self._identity_known(r):
+                res = l is r or (isinstance(l, _EnumVal) and isinstance(r, _EnumVal) and l == r)
+                return res if isinstance(op, ast.Is) else not res
+            return _Op("is")
+        if isinstance(op, (ast.Eq, ast.NotEq)):
+            if (_opaque(l) and not self._identity_known(l)) or (_opaque(r) and not self._identity_known(r)) or \
+                    ((_has_opaque(l) or _has_opaque(r)) and not (_opaque(l) or _opaque(r))):
+                return _Op("eq")
+            res = (l is r) if (_opaque(l) or _opaque(r)) else (l == r)
+            return res if isinstance(op, ast.Eq) else not res
+        if isinstance(op, (ast.In, ast.NotIn)):
+            if _opaque(r) or (_opaque(l) and not self._identity_known(l)):
+                return _Op("in")
+            try:
+                if _has_opaque(r):
+                    # membership among partly unknown elements: known only when a known element matches
+                    hit = any((x is l) if _opaque(x) else (x == l) for x in r)
+                    if not hit:
+                        return _Op("in")
+                    res = True
+                else:
+                    res = l in r
+            except TypeError:
+                raise _Raised("TypeError", node)
+            return res if isinstance(op, ast.In) else not res
+        fn = _CMPOPS.get(type(op))
+        if fn is None:
+            raise Unknown("comparison " + type(op).__name__)
+        if _opaque(l) or _opaque(r):
+            return _Op("cmp")
+        try:
+            return fn(l.value if isinstance(l, _EnumVal) else l, r.value if isinstance(r, _EnumVal) else r)
+        except TypeError:
+            raise _Raised("TypeError", node)
+
+    def e_JoinedStr(self, e, env):
         out = ""
         for v in e.values:
-            out += str(str_eval(v.value if isinstance(v, ast.FormattedValue) else v, env))
-        return out
-    raise Unknown(src(e))
-
-
-def bool_eval(t: ast.AST, env) -> bool:
-    if isinstance(t, ast.BoolOp):
-        vals = [bool_eval(v, env) for v in t.values]
-        return all(vals) if isinstance(t.op, ast.And) else any(vals)
-    if isinstance(t, ast.UnaryOp) and isinstance(t.op, ast.Not):
-        return not bool_eval(t.operand, env)
-    if isinstance(t, ast.Compare) and len(t.ops) == 1:
-        l = str_eval(t.left, env)
-        op, r = t.ops[0], t.comparators[0]
-        if isinstance(op, (ast.In, ast.NotIn)):
-            if isinstance(r, (ast.Tuple, ast.List, ast.Set)):
-                rv = [str_eval(x, env) for x in r.elts]
+            if isinstance(v, ast.FormattedValue):
+                x = self.eval(v.value, env)
+                if v.conversion == 114:
+                    x = "<arg>" if _has_opaque(x) else repr(x)
+                elif v.conversion == 115:
+                    x = str(x)
+                spec = self.eval(v.format_spec, env) if v.format_spec is not None else ""
+                try:
+                    out += format(x, spec)
+                except Exception:
+                    out += "<arg>"
             else:
-                rv = str_eval(r, env)
-            res = l in rv
-            return res if isinstance(op, ast.In) else not res
-        rv = str_eval(r, env)
-        if isinstance(op, ast.Eq):
-            return l == rv
-        if isinstance(op, ast.NotEq):
-            return l != rv
-    v = str_eval(t, env)
-    return bool(v)
+                out += str(self.eval(v, env))
+        return out
+
+    def e_FormattedValue(self, e, env):
+        return format(self.eval(e.value, env))
+
+    def e_Subscript(self, e, env):
+        base = self.eval(e.value, env)
+        idx = self._index(e.slice, env)
+        if _opaque(base) or _has_opaque(idx):
+            return _Op("subscript")
+        try:
+            return base[idx]
+        except Exception as ex:
+            raise _Raised(type(ex).__name__, e)
+
+    def _index(self, s, env):
+        if isinstance(s, ast.Slice):
+            return slice(*(self.eval(x, env) if x is not None else None for x in (s.lower, s.upper, s.step)))
+        return self.eval(s, env)
+
+    def e_Slice(self, e, env):
+        return self._index(e, env)
+
+    def e_NamedExpr(self, e, env):
+        v = self.eval(e.value, env)
+        env[e.target.id] = v
+        return v
+
+    def e_Lambda(self, e, env):
+        return _Closure(e, env)
+
+    def e_Yield(self, e, env):
+        self.yields.append(self.eval(e.value, env) if e.value is not None else None)
+        return None
+
+    def e_YieldFrom(self, e, env):
+        v = self.eval(e.value, env)
+        if _opaque(v):
+            raise Unknown("yield from opaque value")
+        self.yields.extend(list(v))
+        return None
+
+    def e_Starred(self, e, env):
+        raise Unknown("starred expression")
+
+    # comprehensions
+    def _comp(self, gens, env, emit):
+        def rec(i, scope):
+            if i == len(gens):
+                emit(scope)
+                return True
+            g = gens[i]
+            it = self.eval(g.iter, scope)
+            if _opaque(it):
+                return False
+            for item in list(it):
+                self.assign(g.target, item, scope)
+                if all(self.truth(self.eval(c, scope)) for c in g.ifs):
+                    if not rec(i + 1, scope):
+                        return False
+            return True
+
+        return rec(0, dict(env))
+
+    def e_ListComp(self, e, env):
+        out = []
+        return out if self._comp(e.generators, env, lambda sc: out.append(self.eval(e.elt, sc))) else _Op("comprehension")
+
+    e_GeneratorExp = e_ListComp
+
+    def e_SetComp(self, e, env):
+        out = []
+        if not self._comp(e.generators, env, lambda sc: out.append(self.eval(e.elt, sc))):
+            return _Op("comprehension")
+        return set(out)
+
+    def e_DictComp(self, e, env):
+        out = {}
+
+        def put(sc):
+            out[self.eval(e.key, sc)] = self.eval(e.value, sc)
+
+        return out if self._comp(e.generators, env, put) else _Op("comprehension")
+
+    # attributes
+    def e_Attribute(self, e, env):
+        return self.getattr(self.eval(e.value, env), e.attr, e)
+
+    def getattr(self, base, name: str, node=None):
+        if isinstance(base, _EnumVal):
+            if name == "name":
+                return base.name
+            if name == "value":
+                return base.value
+            raise Unknown("enum attribute " + name)
+        if isinstance(base, _EnumCls):
+            if name in base.members:
+                return _EnumVal(base.name, name, base.members[name])
+            return _Attr(base, name)
+        if isinstance(base, _Obj):
+            if name in base.attrs:
+                return base.attrs[name]
+            if base.cls is not None:
+                m = self.method(base.cls, name)
+                if m is not None and m[0] == "const":
+                    try:
+                        return self.eval(m[2], {})
+                    except (Unknown, _Raised):
+                        pass
+            return _Attr(base, name)
+        if isinstance(base, _ClsRef):
+            m = self.method(base.name, name)
+            if m is not None and m[0] == "const":
+                try:
+                    v = self.eval(m[2], {})
+                    if not _has_opaque(v):
+                        return v
+                except (Unknown, _Raised):
+                    pass
+            return _Attr(base, name)
+        if isinstance(base, _Glob) and base.name == "collections" and name in ("defaultdict", "OrderedDict"):
+            return getattr(collections, name)
+        if isinstance(base, _Op):
+            return _Attr(base, name)
+        if isinstance(base, _SAFE_TYPES + (collections.defaultdict, collections.OrderedDict)) and not name.startswith("_"):
+            try:
+                return getattr(base, name)
+            except AttributeError:
+                raise _Raised("AttributeError", node)
+        raise Unknown(f"attribute {name} of {type(base).__name__}")
+
+    # ------------------------------------------------------------------ calls
+    def e_Call(self, e, env):
+        fv = self.eval(e.func, env)
+        args = self._elts(e.args, env)
+        kwargs = {}
+        for k in e.keywords:
+            if k.arg is None:
+                inner = self.eval(k.value, env)
+                if _opaque(inner):
+                    raise Unknown("** of opaque value")
+                kwargs.update(inner)
+            else:
+                kwargs[k.arg] = self.eval(k.value, env)
+        return self.call(fv, args, kwargs, e)
+
+    def _event(self, recv, attr, args, kwargs, node, prim=None, result=None):
+        ev = _Ev(recv, attr, list(args), dict(kwargs), node, prim, result)
+        self.events.append(ev)
+        return ev
+
+    def call(self, fv, args, kwargs, node):
+        hook = self.hooks.get("call")
+        if hook is not None:
+            r = hook(self, fv, args, kwargs, node)
+            if r is not NotImplemented:
+                return r
+        if isinstance(fv, _Closure):
+            return self.invoke(fv.node, args, kwargs, fv.env)
+        if isinstance(fv, _EnumCls):
+            h = self.hooks.get("enum")
+            if h is not None:
+                r = h(self, fv, args)
+                if r is not NotImplemented:
+                    return r
+            if len(args) == 1 and isinstance(args[0], int):
+                for n, v in fv.members.items():
+                    if v == args[0]:
+                        return _EnumVal(fv.name, n, v)
+                raise _Raised("ValueError", node)
+            return _Op(fv.name + "()")
+        if isinstance(fv, _ClsRef):
+            obj = _Obj(fv.name, args, kwargs, node, cls=fv.name)
+            self._event(fv, "<new>", args, kwargs, node, result=obj)
+            return obj
+        if isinstance(fv, _FnRef):
+            want = self.hooks.get("descend_func")
+            # a helper that is handed a builder object works on that object: evaluate it; anything else is a computation
+            # whose result stays opaque (value_to_string, the parsers ...)
+            takes_block = any(isinstance(x, _Obj) and x.cls is not None for x in list(args) + list(kwargs.values()))
+            if self.descend and (want(fv.func) if want is not None else takes_block):
+                return self.invoke(fv.func.node, args, kwargs, None, modname=fv.func.module.name)
+            obj = _Obj(fv.func.qualname, args, kwargs, node)
+            self._event(fv, "<call>", args, kwargs, node, result=obj)
+            return obj
+        if isinstance(fv, _Attr):
+            base = fv.base
+            cname = base.cls if isinstance(base, _Obj) else base.name if isinstance(base, _ClsRef) else None
+            m = self.method(cname, fv.name) if cname else None
+            if m is not None and m[0] == "func" and self.descend and m[2] is not None:
+                f = m[2]
+                decos = {dotted(d) for d in f.node.decorator_list}
+                if "staticmethod" in decos:
+                    pre = []
+                elif "classmethod" in decos:
+                    pre = [base if isinstance(base, _ClsRef) else _ClsRef(cname)]
+                else:
+                    pre = [base] if isinstance(base, _Obj) else []
+                return self.invoke(f.node, pre + list(args), kwargs, None, modname=f.module.name)
+            prim = m[1] if m is not None and m[0] == "prim" else None
+            obj = _Obj(_path(fv), args, kwargs, node, recv=base)
+            self._event(base, fv.name, args, kwargs, node, prim=prim, result=obj)
+            return obj
+        if isinstance(fv, _Op):
+            obj = _Obj(_path(fv), args, kwargs, node, recv=fv)
+            self._event(fv, "<call>", args, kwargs, node, result=obj)
+            return obj
+        if callable(fv):
+            return self._real_call(fv, args, kwargs, node)
+        raise _Raised("TypeError", node)
+
+    def _real_call(self, fn, args, kwargs, node):
+        if fn is isinstance and len(args) == 2:
+            return self._isinstance(args[0], args[1])
+        if fn is getattr and len(args) >= 2 and isinstance(args[1], str):
+            try:
+                v = self.getattr(args[0], args[1], node)
+            except (_Raised, Unknown):
+                if len(args) == 3:
+                    return args[2]
+                raise
+            if isinstance(v, _Attr) and len(args) == 3:
+                return _Op("getattr")  # may be the default
+            return v
+        if fn is hasattr or fn is callable:
+            if any(isinstance(a, _Op) for a in args):
+                return True if fn is callable and isinstance(args[0], (_ClsRef, _FnRef, _Closure)) else _Op(fn.__name__)
+        if fn in (len, repr, sorted, list, tuple, dict, set, frozenset, min, max, sum, int, bytes, bool, reversed, enumerate, zip, iter, next, any, all,
+                  chr, ord, hex, abs, float, bytearray, range) and any(isinstance(a, _Op) for a in args):
+            if fn is bool:
+                return self.truth(args[0])
+            if fn in (list, tuple, sorted, reversed, iter) and isinstance(args[0], _Op):
+                return _Obj(fn.__name__, args, kwargs, node, recv=args[0])  # the same items: keeps where they come from
+            return _Op(getattr(fn, "__name__", "call"))
+        if fn is bool and args:
+            return self.truth(args[0])
+        if fn is repr and args and _has_opaque(args[0]):
+            return _Op("repr")
+        if fn in (any, all) and args and not _opaque(args[0]):
+            vals = [self.truth(x) for x in args[0]]
+            return fn(vals)
+        if fn in (iter, next):
+            raise Unknown("iterator protocol")
+        try:
+            return fn(*args, **kwargs)
+        except Exception as ex:
+            if any(_has_opaque(a) for a in args) or any(_has_opaque(a) for a in kwargs.values()):
+                return _Op("call")
+            raise _Raised(type(ex).__name__, node)
+
+    def _isinstance(self, v, t):
+        ts = list(t) if isinstance(t, tuple) else [t]
+        res = False
+        for x in ts:
+            if isinstance(x, type):
+                if isinstance(v, _EnumVal):
+                    res = res or x in (int, object)
+                elif isinstance(v, _Obj) and v.cls is not None:
+                    res = res or x is object
+                elif isinstance(v, _Op):
+                    return _Op("isinstance")
+                else:
+                    res = res or isinstance(v, x)
+            elif isinstance(x, _ClsRef):
+                if isinstance(v, _Obj) and v.cls is not None:
+                    res = res or any(c.name == x.name for _m, c in self._mro(v.cls))
+                elif isinstance(v, _Op):
+                    return _Op("isinstance")
+            elif isinstance(x, _EnumCls):
+                if isinstance(v, _EnumVal):
+                    res = res or v.cls == x.name
+                elif isinstance(v, _Op):
+                    return _Op("isinstance")
+            else:
+                if isinstance(v, _Op) or not isinstance(v, _SAFE_TYPES):
+                    return _Op("isinstance")
+                # a class from outside the package (lark Tree/Token ...): plain data is not an instance of it
+        return res
+
+    def invoke(self, fnode, args, kwargs, closure_env, modname=None):
+        """Evaluate a function of the package (or a nested function / lambda) on the given argument values."""
+        if self.depth >= _DEPTH_LIMIT:
+            raise Unknown("call depth")
+        saved_mod = (self.modname, self.mod, self._globals)
+        if modname is not None and modname != self.modname:
+            self.modname, self.mod, self._globals = modname, self.ctx.repo.module(modname), {}
+        self.depth += 1
+        try:
+            env = dict(closure_env or {})
+            a = fnode.args
+            pos = [x.arg for x in a.posonlyargs + a.args]
+            args = list(args)
+            kwargs = dict(kwargs)
+            dfl = param_defaults(fnode)
+            for i, p in enumerate(pos):
+                if i < len(args):
+                    env[p] = args[i]
+                elif p in kwargs:
+                    env[p] = kwargs.pop(p)
+                elif p in dfl:
+                    env[p] = self.eval(dfl[p], {})
+                else:
+                    raise _Raised("TypeError", fnode)
+            extra = args[len(pos):]
+            if a.vararg is not None:
+                env[a.vararg.arg] = tuple(extra)
+            elif extra:
+                raise _Raised("TypeError", fnode)
+            for k in a.kwonlyargs:
+                if k.arg in kwargs:
+                    env[k.arg] = kwargs.pop(k.arg)
+                elif k.arg in dfl:
+                    env[k.arg] = self.eval(dfl[k.arg], {})
+                else:
+                    raise _Raised("TypeError", fnode)
+            if a.kwarg is not None:
+                env[a.kwarg.arg] = kwargs
+            elif kwargs:
+                raise _Raised("TypeError", fnode)
+            if isinstance(fnode, ast.Lambda):
+                return self.eval(fnode.body, env)
+            is_gen = any(isinstance(n, (ast.Yield, ast.YieldFrom)) for n in body_walk(fnode))
+            mark = len(self.yields)
+            try:
+                self.block(fnode.body, env)
+                ret = None
+            except _Return as r:
+                ret = r.value
+            except (_Break, _Continue):
+                raise Unknown("loop control outside a loop")
+            if is_gen and self.depth > 1:
+                ret, self.yields[mark:] = list(self.yields[mark:]), []
+            return ret
+        finally:
+            self.depth -= 1
+            self.modname, self.mod, self._globals = saved_mod
+
+    # ------------------------------------------------------------------ assignment
+    def assign(self, t, v, env):
+        if isinstance(t, ast.Name):
+            env[t.id] = v
+        elif isinstance(t, (ast.Tuple, ast.List)):
+            if any(isinstance(x, ast.Starred) for x in t.elts):
+                raise Unknown("starred assignment")
+            if _opaque(v):
+                for x in t.elts:
+                    self.assign(x, _Op("unpacked"), env)
+                return
+            try:
+                items = list(v)
+            except TypeError:
+                raise _Raised("TypeError", t)
+            if len(items) != len(t.elts):
+                raise _Raised("ValueError", t)
+            for x, item in zip(t.elts, items):
+                self.assign(x, item, env)
+        elif isinstance(t, ast.Attribute):
+            base = self.eval(t.value, env)
+            if isinstance(base, _Obj):
+                base.attrs[t.attr] = v
+            elif not _opaque(base):
+                raise Unknown("attribute store on data")
+        elif isinstance(t, ast.Subscript):
+            base = self.eval(t.value, env)
+            idx = self._index(t.slice, env)
+            if _opaque(base):
+                return
+            try:
+                base[idx] = v
+            except Exception as ex:
+                raise _Raised(type(ex).__name__, t)
+        else:
+            raise Unknown("assignment target " + type(t).__name__)
+
+    # ------------------------------------------------------------------ statements
+    def block(self, stmts, env):
+        for st in stmts:
+            self.stmt(st, env)
+
+    def stmt(self, st, env):
+        self.nsteps += 1
+        if self.nsteps > _STEP_LIMIT:
+            raise Unknown("step limit")
+        m = getattr(self, "s_" + type(st).__name__, None)
+        if m is None:
+            raise Unknown("statement " + type(st).__name__)
+        m(st, env)
+
+    def s_Expr(self, st, env):
+        self.eval(st.value, env)
+
+    def s_Pass(self, st, env):
+        pass
+
+    s_Global = s_Nonlocal = s_Import = s_ImportFrom = s_Assert = s_Delete = s_Pass
+
+    def s_Assign(self, st, env):
+        v = self.eval(st.value, env)
+        for t in st.targets:
+            self.assign(t, v, env)
+
+    def s_AnnAssign(self, st, env):
+        if st.value is not None:
+            self.assign(st.target, self.eval(st.value, env), env)
+
+    def s_AugAssign(self, st, env):
+        load = copy.copy(st.target)
+        load.ctx = ast.Load()
+        cur = self.eval(load, env)
+        v = self._binop(type(st.op), cur, self.eval(st.value, env), st, _IBINOPS)
+        self.assign(st.target, v, env)
+
+    def s_If(self, st, env):
+        self.block(st.body if self.truth(self.eval(st.test, env)) else st.orelse, env)
+
+    def s_Return(self, st, env):
+        raise _Return(self.eval(st.value, env) if st.value is not None else None)
+
+    def s_Raise(self, st, env):
+        name = "Exception"
+        if st.exc is not None:
+            name = dotted(st.exc.func if isinstance(st.exc, ast.Call) else st.exc) or "Exception"
+            if isinstance(st.exc, ast.Call):
+                for a in st.exc.args:
+                    self.eval(a, env)
+        raise _Raised(name.split(".")[-1], st)
+
+    def s_Break(self, st, env):
+        raise _Break()
+
+    def s_Continue(self, st, env):
+        raise _Continue()
+
+    def s_FunctionDef(self, st, env):
+        env[st.name] = _Closure(st, env)
+
+    def s_For(self, st, env):
+        itv = self.eval(st.iter, env)
+        if _opaque(itv):
+            h = self.hooks.get("iter")
+            items = h(self, st, itv) if h is not None else None
+            if items is None:
+                items = [_Op("item")]
+        else:
+            try:
+                items = list(itv)
+            except TypeError:
+                raise _Raised("TypeError", st)
+        broke = False
+        for item in items:
+            self.assign(st.target, item, env)
+            try:
+                self.block(st.body, env)
+            except _Continue:
+                continue
+            except _Break:
+                broke = True
+                break
+        if not broke:
+            self.block(st.orelse, env)
+
+    def s_While(self, st, env):
+        n = 0
+        while True:
+            tv = self.eval(st.test, env)
+            once = _opaque(tv) or isinstance(st.test, ast.Constant)
+            if not self.truth(tv):
+                self.block(st.orelse, env)
+                return
+            n += 1
+            try:
+                self.block(st.body, env)
+            except _Continue:
+                pass
+            except _Break:
+                return
+            if once:
+                return  # one symbolic iteration
+            if n > 1000:
+                raise Unknown("loop bound")
+
+    def s_With(self, st, env):
+        for item in st.items:
+            v = self.eval(item.context_expr, env)
+            if item.optional_vars is not None:
+                self.assign(item.optional_vars, v if _opaque(v) else _Op("context"), env)
+        self.block(st.body, env)
+
+    def s_Try(self, st, env):
+        try:
+            try:
+                self.block(st.body, env)
+            except _Raised as r:
+                for h in st.handlers:
+                    names = []
+                    if h.type is not None:
+                        names = [dotted(x) or "?" for x in (h.type.elts if isinstance(h.type, ast.Tuple) else [h.type])]
+                    if h.type is None or r.name in names or "Exception" in names or "BaseException" in names:
+                        if h.name:
+                            env[h.name] = _Op("exception")
+                        self.block(h.body, env)
+                        break
+                else:
+                    raise
+            else:
+                self.block(st.orelse, env)
+        finally:
+            self.block(st.finalbody, env)
+
+
+class _Res:
+    def __init__(self, it: _Interp, ret=None, raised=None, env=None):
+        self.it, self.ret, self.raised, self.env = it, ret, raised, env
+        self.events, self.flags, self.yields = it.events, it.flags, it.yields
+
+
+def _run_func(ctx, f, binding_factory, hooks=None, descend=True) -> List[_Res]:
+    """Evaluate package function `f` on every path; binding_factory(interp) -> positional argument values (fresh per path)."""
+
+    def run(oracle):
+        it = _Interp(ctx, f.module.name, oracle, hooks, descend)
+        args = binding_factory(it)
+        try:
+            ret = it.invoke(f.node, args, {}, None)
+            return _Res(it, ret=ret)
+        except _Raised as r:
+            return _Res(it, raised=r.name)
+        except (Unknown, _Return, _Break, _Continue):
+            raise
+        except Exception as e:  # a construct the evaluator mishandles: nothing is claimed
+            raise Unknown(f"evaluator failure {type(e).__name__}: {e}"[:120])
+
+    return _paths(run)
+
+
+# ============================================================================ shared observations
+def _is_classmethod(f) -> bool:
+    return any(dotted(d) == "classmethod" for d in f.node.decorator_list)
+
+
+def _settings_enum(ctx) -> Dict[str, int]:
+    return _enum_table(ctx).get("BeaconSetting", {})
+
+
+def _generate(ctx, items) -> List[_Res]:
+    """Evaluate C2Profile.from_beacon_config on a configuration whose settings are `items` = [(BeaconSetting member name,
+    value)], on every path.  The settings loop is located by role: the loop with a pair target over something obtained
+    from the configuration parameter.  Results carry flag "settings-loop" when it was found."""
+    f = ctx.repo.func("c2profile.C2Profile.from_beacon_config")
+    enum = _settings_enum(ctx)
+    ps = params(f.node)
+    if len(ps) < (2 if _is_classmethod(f) else 1):
+        raise Unknown("signature of from_beacon_config")
+
+    def on_iter(it, st, itv):
+        if _root(itv) is it.cfg and "settings-loop" not in it.flags:
+            if not (isinstance(st.target, (ast.Tuple, ast.List)) and len(st.target.elts) == 2 and all(isinstance(x, ast.Name) for x in st.target.elts)):
+                raise Unknown("the loop over the configuration does not bind a (setting, value) pair")
+            it.flags.add("settings-loop")
+            return [(_EnumVal("BeaconSetting", k, enum[k]), copy.deepcopy(v)) for k, v in items]
+        return None
+
+    def binding(it):
+        it.cfg = _Sym(ps[-1] if len(ps) <= 2 else ps[1])
+        return ([_ClsRef("C2Profile")] if _is_classmethod(f) else []) + [it.cfg]
+
+    fail = getattr(ctx, "_c13_generate_failure", None)
+    if fail is not None:
+        raise Unknown(fail)
+    try:
+        paths = _run_func(ctx, f, binding, {"iter": on_iter})
+    except Unknown as e:
+        if "paths" in str(e) or "limit" in str(e) or "loop over the configuration" in str(e):
+            ctx._c13_generate_failure = str(e)  # a property of the function, not of the sample: do not try again
+        raise
+    if not any("settings-loop" in r.flags for r in paths):
+        ctx._c13_generate_failure = "the settings loop of from_beacon_config was not found"
+        raise Unknown(ctx._c13_generate_failure)
+    return paths
+
+
+def _prim_events(res: _Res, cls: Optional[str] = None, prims=None) -> List[_Ev]:
+    """Builder primitive calls (on objects of package class `cls`) observed on a path."""
+    out = []
+    for ev in res.events:
+        if ev.prim is None or not isinstance(ev.recv, _Obj) or ev.recv.cls is None:
+            continue
+        if cls is not None and ev.recv.cls != cls:
+            continue
+        if prims is not None and ev.prim not in prims:
+            continue
+        out.append(ev)
+    return out
+
+
+def _ev_name(ev: _Ev):
+    """The tree name a primitive call emits (first argument / `option` keyword; fixed for _header/_parameter)."""
+    if ev.prim in HELPER_FIXED_NAME:
+        return HELPER_FIXED_NAME[ev.prim]
+    return ev.args[0] if ev.args else ev.kwargs.get("option")
+
+
+def _ev_value(ev: _Ev):
+    return ev.args[1] if len(ev.args) > 1 else ev.kwargs.get("value", ev.kwargs.get("config_block"))
+
+
+def _attachments(res: _Res, child) -> List[Tuple[_Obj, str, str]]:
+    """(parent object, primitive, name) of every attach call that hands `child` to a parent block."""
+    out = []
+    for ev in _prim_events(res, prims=ATTACH):
+        if _ev_value(ev) is child:
+            out.append((ev.recv, ev.prim, _ev_name(ev)))
+    return out
 
 
 def run(ctx):
@@ -97,14 +1254,16 @@ def run(ctx):
     rep.explanation = (
         "Static analysis of C2Profile.from_beacon_config and the builder classes against the compiled grammar: every tree "
         "name a builder call site can emit is an alias of matching arity in the rule of the block it is emitted into; the "
-        "BeaconGate and execute-list producers in beacon.py are evaluated completely over their finite vocabularies and "
-        "each produced string is run through the consumer's name mapping and looked up in the grammar (alias and keyword); "
-        "byte arguments flowing into list-valued blocks must pass an escaping sanitiser; sibling setting branches have equal "
-        "summaries; top-level blocks are attached through the non-empty guard."
+        "generator, the builder constructors and the BeaconGate / execute-list producers in beacon.py are evaluated by a "
+        "partial evaluator over the parsed AST on every member of their finite vocabularies (and on sample byte strings with "
+        "backslashes, quotes, control and high bytes): each produced string is run through the consumer and the emitted "
+        "builder call is looked up in the grammar (alias, keyword, arity); byte arguments must reach the blocks escape-encoded; "
+        "the http-get / http-post and x86 / x64 sibling settings must render the same program identically and as the "
+        "reference rendering; blocks are attached only when non-empty (CFG dominance)."
     )
     rep.not_decided = ["equality of the parsed-back values for all configurations", "options the generator chooses to skip",
                        "escaping of static header/parameter decorations (raw text on both sides of the round trip)"]
-    rep.trusted_base = ["lark grammar loader", "CPython ast", "reference BeaconGate/opcode tables"]
+    rep.trusted_base = ["lark grammar loader", "CPython ast", "reference BeaconGate/opcode tables", "the partial evaluator of rules/c13.py"]
     g = Grammar(ctx.repo)
     r1(ctx, g)
     r2(ctx, g)
@@ -128,52 +1287,115 @@ def _block_class(ctx, f, recv: ast.AST) -> Optional[str]:
     return None
 
 
+def _const_names(f, e: Optional[ast.AST]) -> Optional[List[str]]:
+    """The constant strings expression `e` can evaluate to (through single-definition temporaries and conditional
+    expressions); None when it is computed."""
+    if e is None:
+        return None
+    e = inline(f.node, e)
+    if isinstance(e, ast.IfExp):
+        a, b = _const_names(f, e.body), _const_names(f, e.orelse)
+        return a + b if a is not None and b is not None else None
+    v = _c(e)
+    return [v] if isinstance(v, str) else None
+
+
+def _primitive_of(ctx, cls: str, attr: str) -> Optional[str]:
+    """Builder primitive behind `<object of class cls>.attr` (direct method or class-level alias), by class lookup."""
+    it = _Interp(ctx, "c2profile", _Oracle())
+    m = it.method(cls, attr)
+    return m[1] if m is not None and m[0] == "prim" else None
+
+
+def _call_arg(c: ast.Call, idx: int, name: str) -> Optional[ast.AST]:
+    if len(c.args) > idx and not any(isinstance(a, ast.Starred) for a in c.args[: idx + 1]):
+        return c.args[idx]
+    return kwarg(c, name)
+
+
+def _check_site(ctx, g: Grammar, f, cls: str, m: str, name: str, ccls: Optional[str], node, seen: Set[str]):
+    """One builder primitive `m` called on a block of class `cls` with the constant tree name `name` (attach calls: the
+    child block has class `ccls`): the grammar must have that alias, with that arity / body, in the rule of the block."""
+    top = block_aliases_of(g, ["value"])
+    if cls == "C2Profile":
+        text = f"profile.{m}({name!r})"
+        if text in seen:
+            return
+        seen.add(text)
+        if m == "set_option":
+            ok = name in set(g.option_values())
+            ctx.ob("R1", "VOCAB", f, text, ok, f"global option {name!r} " + ("is" if ok else "is NOT") + " an alternative of the OPTION terminal", node)
+        elif m in ATTACH:
+            ok = name in top
+            ctx.ob("R1", "GRAM", f, text, ok, f"top-level block {name!r} " + ("is" if ok else "is NOT") + " a block alias of the grammar's `value` rule", node)
+        else:
+            ctx.ob("R1", "GRAM", f, text, False, f"the grammar has no top-level statement built by {m}", node)
+        return
+    text = f"{cls}.{m}({name!r})"
+    if text in seen:
+        return
+    seen.add(text)
+    origins = BUILDER_RULES.get(cls)
+    if not origins:
+        ctx.ob("R1", "GRAM", f, text, False, f"builder class {cls} has no grammar rule mapping", node)
+        return
+    if m in ATTACH:
+        ba = block_aliases_of(g, origins)
+        ok = name in ba
+        body_ok = True
+        want = None
+        if ok and ccls:
+            want = set(BUILDER_RULES.get(ccls, [])) if ccls != "DataTransformBlock" else {"data_transform"}
+            body_ok = not want or bool(want & ba[name])
+        ctx.ob("R1", "GRAM", f, text, ok and body_ok,
+               f"{cls} child block {name!r}: block alias in {origins}={ok}; child {ccls} emits alternatives of {sorted(want) if want else '?'} and the grammar body is {sorted(ba.get(name, []))}", node)
+    else:
+        al = aliases_of(g, origins)
+        ar = PRIM_ARITY[m]
+        ok = name in al and ar in al[name]
+        ctx.ob("R1", "GRAM", f, text, ok, f"{cls}.{m} emits {name!r} with {ar} string(s); rules {origins} " + (f"have it with arities {sorted(al[name])}" if name in al else "have no such alias"), node)
+
+
 def r1(ctx, g: Grammar):
     f = ctx.repo.func("c2profile.C2Profile.from_beacon_config")
     n = 0
-    top = block_aliases_of(g, ["value"])
-    options = set(g.option_values())
+    seen: Set[str] = set()
     for c in fn_calls(f.node):
-        if not isinstance(c.func, ast.Attribute) or c.func.attr not in set(HELPER_ARITY) | ATTACH:
+        if not isinstance(c.func, ast.Attribute):
             continue
         recv = c.func.value
         cls = _block_class(ctx, f, recv)
-        name = _c(c.args[0]) if c.args else None
         if cls is None:
             continue
-        if name is None:
-            continue  # computed names are evaluated by R2/R3 and the build-selector check below
-        n += 1
-        m = c.func.attr
-        if cls == "C2Profile":
-            if m == "set_option":
-                ok = name in options
-                ctx.ob("R1", "VOCAB", f, f"profile.set_option({name!r})", ok, f"global option {name!r} " + ("is" if ok else "is NOT") + " an alternative of the OPTION terminal", c)
-            else:
-                ok = name in top
-                ctx.ob("R1", "GRAM", f, f"profile.{m}({name!r})", ok, f"top-level block {name!r} " + ("is" if ok else "is NOT") + " a block alias of the grammar's `value` rule", c)
+        m = _primitive_of(ctx, cls, c.func.attr)
+        if m is None:
             continue
-        origins = BUILDER_RULES.get(cls)
-        if not origins:
-            ctx.ob("R1", "GRAM", f, src(c)[:60], False, f"builder class {cls} has no grammar rule mapping", c)
-            continue
-        if m in ATTACH:
-            ba = block_aliases_of(g, origins)
-            ok = name in ba
-            child = c.args[1] if len(c.args) > 1 else None
-            ccls = _block_class(ctx, f, child) if child is not None else None
-            body_ok = True
-            want = None
-            if ok and ccls:
-                want = set(BUILDER_RULES.get(ccls, [])) if ccls != "DataTransformBlock" else {"data_transform"}
-                body_ok = not want or bool(want & ba[name])
-            ctx.ob("R1", "GRAM", f, f"{cls}.{m}({name!r})", ok and body_ok,
-                   f"{cls} child block {name!r}: block alias in {origins}={ok}; child {ccls} emits alternatives of {sorted(want) if want else '?'} and the grammar body is {sorted(ba.get(name, []))}", c)
+        if m in HELPER_FIXED_NAME:
+            names = [HELPER_FIXED_NAME[m]]
         else:
-            al = aliases_of(g, origins)
-            ar = HELPER_ARITY[m]
-            ok = name in al and ar in al[name]
-            ctx.ob("R1", "GRAM", f, f"{cls}.{m}({name!r})", ok, f"{cls}.{m} emits {name!r} with {ar} string(s); rules {origins} " + (f"have it with arities {sorted(al[name])}" if name in al else "have no such alias"), c)
+            names = _const_names(f, _call_arg(c, 0, "option"))
+        if names is None:
+            continue  # computed names: see the evaluation below, R2/R3/R5 and the build-selector check
+        n += 1
+        child = _call_arg(c, 1, "config_block") if m in ATTACH else None
+        ccls = _block_class(ctx, f, child) if child is not None else None
+        for name in names:
+            _check_site(ctx, g, f, cls, m, name, ccls, c, seen)
+    # the same check on what the generator *does* for each single setting (value unknown: every branch on it is
+    # explored): covers names that come out of tables, helpers or computed expressions
+    for k in sorted(_settings_enum(ctx)):
+        try:
+            paths = _generate(ctx, [(k, _Op("value"))])
+        except Unknown:
+            continue
+        for res in paths:
+            for ev in _prim_events(res, prims=PRIMS):
+                name = _ev_name(ev)
+                if isinstance(name, str) and "<arg>" not in name:
+                    child = _ev_value(ev) if ev.prim in ATTACH else None
+                    before = len(seen)
+                    _check_site(ctx, g, f, ev.recv.cls, ev.prim, name, child.cls if isinstance(child, _Obj) else None, ev.node, seen)
+                    n += len(seen) - before
     ctx.rep.count("builder_call_sites", n, floor=40)
     # constructor keywords: HttpOptionsBlock(output=DataTransformBlock(...))
     for c in fn_calls(f.node):
@@ -190,21 +1412,24 @@ def r1(ctx, g: Grammar):
                 ccls = _block_class(ctx, f, k.value)
                 ok = (k.arg in ba) if ccls else (k.arg in al)
                 ctx.ob("R1", "GRAM", f, f"{cls}({k.arg}=...)", ok, f"constructor keyword {k.arg!r} is a {'block ' if ccls else ''}alias of {origins}={ok}", c)
-    # computed block names: the build selectors that parse_transform_binary can emit
+    # computed block names: the build selectors that parse_transform_binary can emit.  They are located by role: the
+    # constant strings of the mapping(s) that also hold the function's build-selector parameter, that parameter's
+    # default, and the values bound to it in the pretty-printer table.
     ptb = ctx.repo.func("beacon.parse_transform_binary")
-    sel = set()
-    bm = [v for st, v in assignments_to(ptb.node, "BUILD_MAP")]
-    if bm and isinstance(bm[0], ast.Dict):
-        for v in bm[0].values:
-            if isinstance(_c(v), str):
-                sel.add(_c(v))
     tbl = ctx.repo.const("beacon.SETTING_TO_PRETTYFUNC")
-    from csverif.astutil import param_defaults
-    sel.add(_c(param_defaults(ptb.node).get("build")))
-    for v in tbl.values:
-        if isinstance(v, ast.Call) and kwarg(v, "build") is not None:
-            sel.add(_c(kwarg(v, "build")))
-    sel.discard(None)
+    sel: Set[str] = set()
+    dfl = param_defaults(ptb.node)
+    sel_params = [p for p in params(ptb.node) if isinstance(_c(dfl.get(p)), str)]
+    for p in sel_params:
+        sel.add(_c(dfl[p]))
+        for n2 in body_walk(ptb.node):
+            if isinstance(n2, ast.Dict) and any(isinstance(v, ast.Name) and v.id == p for v in n2.values):
+                sel.update(_c(v) for v in n2.values if isinstance(_c(v), str))
+        for v in (tbl.values if isinstance(tbl, ast.Dict) else []):
+            if isinstance(v, ast.Call) and isinstance(_c(kwarg(v, p)), str):
+                sel.add(_c(kwarg(v, p)))
+    if not sel_params:
+        ctx.undecided("R1", "VOCAB", ptb, "build selectors", "parse_transform_binary has no string-valued selector parameter any more: the block names it emits cannot be located")
     ba = block_aliases_of(g, ["http_get_client_options"])
     for s in sorted(sel):
         ok = s in ba and "data_transform" in ba[s]
@@ -222,403 +1447,746 @@ def r1(ctx, g: Grammar):
 
 
 # ---------------------------------------------------------------------------- R2
+def _emitted_strings(fn: ast.AST) -> Set[str]:
+    """String constants a function puts into a collection / yields / returns inside a list (not messages, not keys)."""
+    out: Set[str] = set()
+
+    def consts(e):
+        for x in ast.walk(e):
+            if isinstance(x, ast.Constant) and isinstance(x.value, str):
+                out.add(x.value)
+
+    for n in body_walk(fn):
+        if isinstance(n, ast.Call) and isinstance(n.func, ast.Attribute) and n.func.attr in ("append", "extend", "insert", "add", "appendleft"):
+            for a in n.args:
+                if isinstance(a, (ast.Constant, ast.List, ast.Tuple, ast.IfExp)):
+                    consts(a)
+        elif isinstance(n, (ast.Yield, ast.YieldFrom)) and n.value is not None and isinstance(n.value, (ast.Constant, ast.List, ast.Tuple, ast.IfExp)):
+            consts(n.value)
+        elif isinstance(n, ast.AugAssign) and isinstance(n.value, (ast.List, ast.Tuple)):
+            consts(n.value)
+        elif isinstance(n, ast.Return) and n.value is not None:
+            for x in ast.walk(n.value):
+                if isinstance(x, ast.List):
+                    for e in x.elts:
+                        if isinstance(e, ast.Constant):
+                            consts(e)
+    return out
+
+
 def r2(ctx, g: Grammar):
     prod = ctx.repo.func("beacon.beacon_gate_options_string")
-    labels = set()
-    for c in fn_calls(prod.node):
-        if isinstance(c.func, ast.Attribute) and c.func.attr == "append" and c.args and isinstance(_c(c.args[0]), str):
-            labels.add(_c(c.args[0]))
     cd = ctx.cdefs("beacon")["cs_struct"]
     fields = [x.name for x in cd.struct("BeaconGateOptions").fields]
-    # the consumer's name mapping
-    cons = ctx.repo.func("c2profile.BeaconGateBlock.from_beacon_gate_option_strings")
-    en = [c for c in fn_calls(cons.node) if isinstance(c.func, ast.Attribute) and c.func.attr == "_enable"]
-    if len(en) != 1:
-        ctx.ob("R2", "VOCAB", cons, "block._enable(<name>)", False, "consumer does not emit exactly one _enable per option")
-        return
-    loopvar = None
-    for st in statements(cons.node):
-        if isinstance(st, ast.For):
-            loopvar = dotted(st.target)
     rules = {r.alias: r for r in g.alternatives("beacon_gate_options")}
+    keywords = {r.keywords[0].lower(): r.keywords[0] for r in rules.values() if r.keywords}
+    # group labels: constants the producer emits, plus any constant of it that names a keyword of the block up to case
+    labels = {s for s in _emitted_strings(prod.node) if s not in fields}
+    for n in body_walk(prod.node):
+        if isinstance(n, ast.Constant) and isinstance(n.value, str) and n.value not in fields and n.value.lower() in keywords and " " not in n.value:
+            labels.add(n.value)
+    if not labels:
+        ctx.undecided("R2", "VOCAB", prod, "group labels", "the group labels (All/Comms/Core/Cleanup) the producer emits cannot be located as constants")
+    cons = ctx.repo.func("c2profile.BeaconGateBlock.from_beacon_gate_option_strings")
+    ps = params(cons.node)
+    attrs = ctx.repo.class_attrs("c2profile.BeaconGateBlock")
     n = 0
     for s in sorted(labels) + fields:
         n += 1
+
+        def binding(it, s=s):
+            return ([_ClsRef("BeaconGateBlock")] if _is_classmethod(cons) else []) + [[s]]
+
         try:
-            name = str_eval(en[0].args[0], {loopvar: s})
+            paths = _run_func(ctx, cons, binding)
         except Unknown as e:
-            ctx.ob("R2", "VOCAB", cons, f"option {s}", False, f"cannot evaluate the consumer's name mapping: {e}")
+            ctx.undecided("R2", "VOCAB", cons, f"option {s}", f"cannot evaluate the consumer's name mapping: {e}")
             continue
-        r = rules.get(name)
-        kw = r.keywords[0] if r is not None and r.keywords else None
-        ok = r is not None and kw == s
-        ctx.ob("R2", "VOCAB", cons, f"option {s}", ok,
-               f"producer can emit {s!r}; consumer emits tree {name!r}; grammar alias " + (f"exists with keyword {kw!r}" if r is not None else "does NOT exist (as_text() raises)") + f" (required keyword {s!r})")
-        # and the builder class has that attribute
-        attrs = ctx.repo.class_attrs("c2profile.BeaconGateBlock")
-        if name not in attrs:
-            ctx.ob("R2", "VOCAB", "c2profile.py::BeaconGateBlock", f"attribute {name}", False, f"builder has no attribute {name!r} for option {s!r}")
+        for res in paths:
+            evs = _prim_events(res, cls="BeaconGateBlock", prims=PRIM_ARITY)
+            if res.raised or len(evs) != 1 or not isinstance(_ev_name(evs[0]), str):
+                ctx.ob("R2", "VOCAB", cons, f"option {s}", False,
+                       f"producer can emit {s!r}; consumer " + (f"raises {res.raised}" if res.raised else f"emits {evs} (exactly one flag statement expected)"))
+                continue
+            name, prim = _ev_name(evs[0]), evs[0].prim
+            r = rules.get(name)
+            kw = r.keywords[0] if r is not None and r.keywords else None
+            ok = r is not None and kw == s and PRIM_ARITY[prim] == 0
+            ctx.ob("R2", "VOCAB", cons, f"option {s}", ok,
+                   f"producer can emit {s!r}; consumer emits tree {name!r} with {prim}; grammar alias " + (f"exists with keyword {kw!r}" if r is not None else "does NOT exist (as_text() raises)") + f" (required keyword {s!r}, no argument)")
+            # and the builder class has that attribute
+            if name not in attrs:
+                ctx.ob("R2", "VOCAB", "c2profile.py::BeaconGateBlock", f"attribute {name}", False, f"builder has no attribute {name!r} for option {s!r}")
     ctx.rep.count("beacon_gate_vocabulary", n, floor=27)
 
 
 # ---------------------------------------------------------------------------- R3
+_ARG_EXECUTORS = {"CreateThread_", "CreateRemoteThread_"}  # executors that carry a module!function argument (reference)
+_CS_SPELLING = {"NtQueueApcThread_s": "NtQueueApcThread-s", "CreateThread_": "CreateThread", "CreateRemoteThread_": "CreateRemoteThread"}
+
+
+def _producer_strings(ctx, prod, enum_name: str, member: str) -> Optional[List[List[object]]]:
+    """What parse_execute_list puts out for one list entry whose executor byte decodes to `member`: the function is
+    evaluated with every construction `InjectExecutor(<byte>)` yielding that member; one loop iteration.  One list of
+    produced items per path that constructs the executor; None when no path does."""
+    val = _enum_table(ctx)[enum_name][member]
+
+    def on_enum(it, ecls, args):
+        if ecls.name == enum_name:
+            it.flags.add("constructed")
+            return _EnumVal(enum_name, member, val)
+        return NotImplemented
+
+    ps = params(prod.node)
+    paths = _run_func(ctx, prod, lambda it: [_Sym(p) for p in ps[:1]], {"enum": on_enum})
+    outs = []
+    for res in paths:
+        if "constructed" not in res.flags:
+            continue
+        if res.raised:
+            outs.append([f"<raises {res.raised}>"])
+            continue
+        items = list(res.yields)
+        if isinstance(res.ret, (list, tuple)):
+            items += list(res.ret)
+        elif res.ret is not None:
+            raise Unknown("the producer returns " + _show(res.ret)[:40])
+        outs.append(items)
+    return outs or None
+
+
+def _consumer_emission(ctx, s: str):
+    """(verdict detail) of from_beacon_config for an execute list [s]: the builder calls on ExecuteOptionsBlock objects
+    and whether that object is attached to a process-inject block."""
+    out = []
+    for res in _generate(ctx, [("SETTING_PROCINJ_EXECUTE", [s])]):
+        if "settings-loop" not in res.flags:
+            raise Unknown("the settings loop of from_beacon_config was not found")
+        evs = _prim_events(res, cls="ExecuteOptionsBlock", prims=PRIM_ARITY)
+        attached = all(any(p.cls == "ProcessInjectBlock" for p, _pr, _n in _attachments(res, ev.recv)) for ev in evs)
+        out.append((res.raised, [(ev.prim, _ev_name(ev)) for ev in evs], attached))
+    return out
+
+
 def r3(ctx, g: Grammar):
     prod = ctx.repo.func("beacon.parse_execute_list")
     cd = ctx.cdefs("beacon")["cs_struct"]
     members = [m for m, _v in cd.enum("InjectExecutor").members]
-    # the set of executors with module!function arguments, and the statements that render one executor
-    special: Set[str] = set()
-    INJ = next((dotted(s2.targets[0]) for s2 in statements(prod.node) if isinstance(s2, ast.Assign) and isinstance(s2.value, ast.Call) and dotted(s2.value.func) == "InjectExecutor"), "inject")
-    for n in body_walk(prod.node):
-        if isinstance(n, ast.Compare) and isinstance(n.ops[0], ast.In) and dotted(n.left) == INJ and isinstance(n.comparators[0], (ast.Tuple, ast.List, ast.Set)):
-            special = {(dotted(e) or "").split(".")[-1] for e in n.comparators[0].elts}
-    loops_ = [s2 for s2 in statements(prod.node) if isinstance(s2, (ast.While, ast.For))]
-    body = loops_[0].body if loops_ else []
-    # statements after `inject = InjectExecutor(..)`
-    idx = next((i for i, s2 in enumerate(body) if isinstance(s2, ast.Assign) and dotted(s2.targets[0]) == INJ), None)
-    if idx is None:
-        ctx.ob("R3", "VOCAB", prod, "producer shape", False, "parse_execute_list does not bind `inject = InjectExecutor(..)` in its loop")
-        return
-    render = body[idx + 1:]
-    produced = []
+    produced: List[Tuple[str, str]] = []
+    examined = 0
     for m in members:
-        env = {f"{INJ}.name": m, INJ: f"InjectExecutor.{m}"}
-        for mm in members:
-            env[f"InjectExecutor.{mm}"] = f"InjectExecutor.{mm}"
-        got: List[Tuple[str, str]] = []
-        _simulate_env(render, dict(env), got, emit=lambda c, e, out: out.append(("append", str_eval(c.args[0], e))) if isinstance(c.func, ast.Attribute) and c.func.attr == "append" and c.args else None)
-        if len(got) != 1:
-            ctx.ob("R3", "VOCAB", prod, f"executor {m}", False, f"producer renders executor {m} as {got} (exactly one string expected)")
-            continue
-        produced.append((m, got[0][1]))
-    # consumer in from_beacon_config
-    f = ctx.repo.func("c2profile.C2Profile.from_beacon_config")
-    branch = None
-    for st in statements(f.node):
-        if isinstance(st, ast.If) and "SETTING_PROCINJ_EXECUTE" in src(st.test) and "and" not in src(st.test):
-            branch = st
-    if branch is None:
-        ctx.ob("R3", "VOCAB", f, "consumer shape", False, "no SETTING_PROCINJ_EXECUTE branch in from_beacon_config")
-        return
-    loop = [s for s in branch.body if isinstance(s, ast.For)]
-    item = dotted(loop[0].target) if loop else None
-    rules = {r.alias: r for r in g.alternatives("execute_options")}
-    cs_spelling = {"NtQueueApcThread_s": "NtQueueApcThread-s", "CreateThread_": "CreateThread", "CreateRemoteThread_": "CreateRemoteThread"}
-    for m, s in produced:
-        emitted = _simulate(loop[0].body, {item: s}) if loop else []
-        want_kw = cs_spelling.get(m, m)
-        want_arity = 1 if m in special else 0
-        ok = False
-        detail = f"producer emits {s!r}; consumer emits nothing: the executor is silently dropped from the profile"
-        if len(emitted) == 1:
-            meth, name = emitted[0]
-            r = rules.get(name)
-            kw = r.keywords[0] if r is not None and r.keywords else None
-            ar = g.string_arity(r) if r is not None else None
-            ok = r is not None and kw == want_kw and ar == want_arity and HELPER_ARITY.get(meth) == want_arity
-            detail = f"producer emits {s!r}; consumer calls {meth}({name!r}); grammar alias keyword={kw!r} arity={ar} (required keyword {want_kw!r}, arity {want_arity})"
-        elif len(emitted) > 1:
-            detail = f"producer emits {s!r}; consumer emits {emitted} (more than one statement)"
-        ctx.ob("R3", "VOCAB", f, f"executor {m}", ok, detail)
-    ctx.rep.count("executors", len(produced), floor=8)
-    # the sibling consumer ExecuteOptionsBlock.from_execute_list accepts the same plain names
-    fe = ctx.repo.func("c2profile.ExecuteOptionsBlock.from_execute_list")
-    lists = [(_c(n.comparators[0])) for n in body_walk(fe.node) if isinstance(n, ast.Compare) and isinstance(n.ops[0], ast.In) and isinstance(n.comparators[0], (ast.List, ast.Tuple))]
-    lists2 = [(_c(n.comparators[0])) for n in ast.walk(branch) if isinstance(n, ast.Compare) and isinstance(n.ops[0], ast.In) and isinstance(n.comparators[0], (ast.List, ast.Tuple))]
-    a = sorted(lists[-1]) if lists else None
-    b = sorted(lists2[-1]) if lists2 else None
-    ctx.ob("R3", "AGREE", fe, "accepted executor names", a == b and a is not None, f"from_execute_list accepts {a}; from_beacon_config accepts {b}")
-
-
-def _simulate(body: List[ast.stmt], env: Dict[str, object]) -> List[Tuple[str, str]]:
-    """Run the consumer's loop body on one concrete item; returns emitted (method, tree name)."""
-    out: List[Tuple[str, str]] = []
-    env = dict(env)
-    for st in body:
-        if isinstance(st, ast.If):
-            try:
-                t = bool_eval(st.test, env)
-            except Unknown:
-                continue
-            sub = _simulate_env(st.body if t else st.orelse, env, out)
-        elif isinstance(st, ast.Assign):
-            _assign(st, env)
-        elif isinstance(st, ast.Expr) and isinstance(st.value, ast.Call):
-            _emit(st.value, env, out)
-    return out
-
-
-def _simulate_env(body, env, out, emit=None):
-    emit = emit or _emit
-    for st in body:
-        if isinstance(st, ast.If):
-            try:
-                t = bool_eval(st.test, env)
-            except Unknown:
-                continue
-            _simulate_env(st.body if t else st.orelse, env, out, emit)
-        elif isinstance(st, ast.Assign):
-            _assign(st, env)
-        elif isinstance(st, ast.AugAssign):
-            d = dotted(st.target)
-            if d in env:
-                try:
-                    env[d] = env[d] + str_eval(st.value, env)
-                except (Unknown, TypeError):
-                    env.pop(d, None)
-        elif isinstance(st, ast.Expr) and isinstance(st.value, ast.Call):
-            try:
-                emit(st.value, env, out)
-            except Unknown:
-                out.append(("?", "?" + src(st.value)[:40]))
-
-
-def _assign(st: ast.Assign, env):
-    try:
-        v = str_eval(st.value, env)
-    except Unknown:
-        return
-    t = st.targets[0]
-    if isinstance(t, ast.Tuple) and isinstance(v, tuple) and len(t.elts) == len(v):
-        for a, b in zip(t.elts, v):
-            if dotted(a):
-                env[dotted(a)] = b
-    elif dotted(t):
-        env[dotted(t)] = v
-
-
-def _emit(c: ast.Call, env, out):
-    if isinstance(c.func, ast.Attribute) and c.func.attr in HELPER_ARITY and c.args:
+        examined += 1
         try:
-            out.append((c.func.attr, str_eval(c.args[0], env)))
-        except Unknown:
-            out.append((c.func.attr, "?" + src(c.args[0])))
+            outs = _producer_strings(ctx, prod, "InjectExecutor", m)
+        except Unknown as e:
+            ctx.undecided("R3", "VOCAB", prod, f"executor {m}", f"cannot evaluate parse_execute_list: {e}")
+            continue
+        if outs is None:
+            ctx.undecided("R3", "VOCAB", prod, f"executor {m}", "parse_execute_list does not construct an InjectExecutor from the input on any path")
+            continue
+        seen = set()
+        for items in outs:
+            if len(items) != 1 or not isinstance(items[0], str) or items[0].startswith("<raises"):
+                ctx.ob("R3", "VOCAB", prod, f"executor {m}", False, f"producer renders executor {m} as {_show(items)} (exactly one string expected)")
+                continue
+            if items[0] not in seen:
+                seen.add(items[0])
+                produced.append((m, items[0]))
+    f = ctx.repo.func("c2profile.C2Profile.from_beacon_config")
+    fe = ctx.repo.func("c2profile.ExecuteOptionsBlock.from_execute_list")
+    rules = {r.alias: r for r in g.alternatives("execute_options")}
+    done: Set[str] = set()
+    agree: List[str] = []
+    agree_unknown: List[str] = []
+    for m, s in produced:
+        want_kw = _CS_SPELLING.get(m, m)
+        want_arity = 1 if m in _ARG_EXECUTORS else 0
+        try:
+            ems = _consumer_emission(ctx, s)
+        except Unknown as e:
+            ctx.undecided("R3", "VOCAB", f, f"executor {m}", f"cannot evaluate from_beacon_config on the execute list [{s!r}]: {e}")
+            continue
+        ok = True
+        details = []
+        emitted_here = None
+        for raised, emitted, attached in ems:
+            if raised:
+                ok = False
+                details.append(f"producer emits {s!r}; from_beacon_config raises {raised}")
+            elif not emitted:
+                ok = False
+                details.append(f"producer emits {s!r}; consumer emits nothing: the executor is silently dropped from the profile")
+            elif len(emitted) > 1:
+                ok = False
+                details.append(f"producer emits {s!r}; consumer emits {emitted} (more than one statement)")
+            else:
+                meth, name = emitted[0]
+                emitted_here = emitted[0]
+                r = rules.get(name) if isinstance(name, str) else None
+                kw = r.keywords[0] if r is not None and r.keywords else None
+                ar = g.string_arity(r) if r is not None else None
+                good = r is not None and kw == want_kw and ar == want_arity and PRIM_ARITY.get(meth) == want_arity and attached
+                ok = ok and good
+                details.append(f"producer emits {s!r}; consumer calls {meth}({name!r}); grammar alias keyword={kw!r} arity={ar} (required keyword {want_kw!r}, arity {want_arity}); "
+                               f"execute block attached to process-inject={attached}")
+        key = f"executor {m}" if f"executor {m}" not in done else f"executor {m} as {s}"
+        done.add(f"executor {m}")
+        ctx.ob("R3", "VOCAB", f, key, ok, "; ".join(sorted(set(details)))[:600])
+        # the sibling consumer ExecuteOptionsBlock.from_execute_list renders the same entry the same way
+        if emitted_here is None:
+            continue
+        entry = s
+        if m in _ARG_EXECUTORS and " " in s:
+            entry = (s.split(" ", 1)[0], "<arg>")
+
+        def binding(it, entry=entry):
+            return ([_ClsRef("ExecuteOptionsBlock")] if _is_classmethod(fe) else []) + [[entry]]
+
+        try:
+            for res in _run_func(ctx, fe, binding):
+                got = [(ev.prim, _ev_name(ev)) for ev in _prim_events(res, cls="ExecuteOptionsBlock", prims=PRIM_ARITY)]
+                if res.raised or got != [emitted_here]:
+                    agree.append(f"{entry!r}: from_beacon_config emits {emitted_here}, from_execute_list " + (f"raises {res.raised}" if res.raised else f"emits {got}"))
+        except Unknown as e:
+            agree_unknown.append(f"{entry!r}: {e}")
+    ctx.rep.count("executors", max(examined, len(produced)), floor=8)
+    if agree_unknown and not agree:
+        ctx.undecided("R3", "AGREE", fe, "accepted executor names", "cannot evaluate from_execute_list: " + "; ".join(agree_unknown)[:300])
+    else:
+        ctx.ob("R3", "AGREE", fe, "accepted executor names", not agree,
+               "from_execute_list and from_beacon_config render every executor the producer can emit with the same builder call" if not agree else "; ".join(agree)[:500])
 
 
 # ---------------------------------------------------------------------------- R4 / R5
-def _classify_value(ctx, f, val: ast.AST, at: ast.AST, loopvar: str) -> str:
-    """'bytes' (raw bytes handed to value_to_string), 'repr' (repr(v)[2:-1]), 'decode' (unsanitised), or 'other'."""
-    cands = reaching_origins(ctx, f, val, at) if isinstance(val, ast.Name) else [val]
-    kinds = set()
-    for o in cands:
-        o = strip_cast(o)
-        if isinstance(o, ast.Subscript) and isinstance(o.value, ast.Call) and dotted(o.value.func) == "repr" and _c(o.slice.lower) == 2 and _c(o.slice.upper) == -1:
-            kinds.add("repr")
-        elif isinstance(o, ast.Name) and o.id == loopvar:
-            kinds.add("bytes")
-        elif isinstance(o, (ast.For, ast.AsyncFor)):
-            kinds.add("bytes")
-        elif isinstance(o, ast.Call) and isinstance(o.func, ast.Attribute) and o.func.attr == "decode":
-            kinds.add("decode")
-        elif isinstance(o, ast.Constant) and isinstance(o.value, bytes):
-            kinds.add("bytes")
-        else:
-            kinds.add("other:" + src(o)[:30])
-    return "|".join(sorted(kinds))
+_NASTY = b'A\\B"C\x00\xff\'\n z'  # backslash, double quote, NUL, high byte, single quote, newline, space
+_SAMPLE_BYTES = {"PREPEND": _NASTY, "APPEND": b"", "HEADER": b"Cook\\ie", "PARAMETER": b'i"d'}
 
 
-def _branch(f, key: str) -> Optional[ast.If]:
-    for st in statements(f.node):
-        if isinstance(st, ast.If):
-            for l, op, r in compare_parts(st.test):
-                if isinstance(op, ast.Eq) and dotted(r) == f"BeaconSetting.{key}" and not isinstance(st.test, ast.BoolOp):
-                    return st
-    return None
-
-
-def _http_summary(ctx, f, br: ast.If) -> dict:
-    summ = {}
-    loop = [s for s in br.body if isinstance(s, ast.For)]
-    if not loop:
-        return summ
-    lp = loop[0]
-    kv = [dotted(e) for e in lp.target.elts] if isinstance(lp.target, ast.Tuple) else [None, None]
-    k, v = kv
-    for st in ast.walk(lp):
-        if not isinstance(st, ast.If):
+def _decode_profile_string(s: str) -> Optional[bytes]:
+    """Reference reading of the text between the quotes of a profile string (csverif.tables.ESCAPES), after what the
+    STRING token builder does with a str (escape bare double quotes, take the backslash off \\')."""
+    out = bytearray()
+    i = 0
+    while i < len(s):
+        ch = s[i]
+        if ch != "\\":
+            if not (0x20 <= ord(ch) < 0x7F):
+                return None  # raw control / non-ASCII character in profile text
+            out.append(ord(ch))
+            i += 1
             continue
-        t = src(st.test)
-        apps = [c for s in st.body for c in ast.walk(s) if isinstance(c, ast.Call) and isinstance(c.func, ast.Attribute) and c.func.attr == "append"]
-        parts = [_c(c.args[0]) for s in st.body for c in ast.walk(s) if isinstance(c, ast.Call) and isinstance(c.func, ast.Attribute) and c.func.attr == "partition" and c.args]
-        decs = [src(c) for s in st.body for c in ast.walk(s) if isinstance(c, ast.Call) and isinstance(c.func, ast.Attribute) and c.func.attr == "decode"]
-        if "_HEADER" in t:
-            summ["decoration_header"] = (tuple(parts), tuple(decs), [dotted(a.func.value) for a in apps])
-        elif "_PARAMETER" in t:
-            summ["decoration_param"] = (tuple(parts), tuple(decs), [dotted(a.func.value) for a in apps])
-        elif "BUILD" in t:
-            summ["build"] = [src(s) for s in st.body]
-        elif t == f"{v} is True":
-            summ["flag"] = [src(a.args[0]) for a in apps]
-    # the final else: valued steps
-    valued = []
-    for c in ast.walk(lp):
-        if isinstance(c, ast.Call) and isinstance(c.func, ast.Attribute) and c.func.attr == "append" and c.args and isinstance(c.args[0], ast.Tuple) and len(c.args[0].elts) == 2 \
-                and isinstance(c.func.value, ast.Subscript):
-            valued.append((src(c.args[0].elts[0]), _classify_value(ctx, f, c.args[0].elts[1], c, v), c))
-    summ["valued"] = [(a, b) for a, b, _c2 in valued]
-    summ["_valued_nodes"] = valued
-    after = [s for s in br.body if s is not lp and not isinstance(s, (ast.Assign, ast.AnnAssign)) and not (isinstance(s, ast.Expr) and "logger" in src(s))]
-    emits = []
-    for s in after:
-        for c in ast.walk(s):
-            if isinstance(c, ast.Call) and isinstance(c.func, ast.Attribute) and c.func.attr in set(HELPER_ARITY) | ATTACH:
-                emits.append((c.func.attr, src(c.args[0]) if c.args else None, src(c.args[1])[:40] if len(c.args) > 1 else None))
-    summ["emit"] = emits
-    return summ
+        if i + 1 >= len(s):
+            return None
+        nx = s[i + 1]
+        if nx == "x":
+            h = s[i + 2:i + 4]
+            if len(h) != 2:
+                return None
+            try:
+                out.append(int(h, 16))
+            except ValueError:
+                return None
+            i += 4
+        elif nx == "u":
+            h = s[i + 2:i + 6]
+            try:
+                v = int(h, 16)
+            except ValueError:
+                return None
+            if len(h) != 4 or v > 0xFF:
+                return None
+            out.append(v)
+            i += 6
+        elif nx in tables.ESCAPES and tables.ESCAPES[nx] is not None:
+            out.append(tables.ESCAPES[nx])
+            i += 2
+        else:
+            return None
+    return bytes(out)
+
+
+def _arg_kind(x, original: bytes) -> str:
+    """How a byte argument reaches a builder: 'bytes' (handed over raw: the STRING builder escape-encodes bytes),
+    'escaped' (a str that reads back as the original bytes), else a description of what is wrong."""
+    if isinstance(x, (bytes, bytearray)):
+        return "bytes" if bytes(x) == original else f"different bytes {bytes(x)!r}"
+    if isinstance(x, str):
+        dec = _decode_profile_string(x)
+        if dec == original:
+            return "escaped"
+        return f"unescaped text {x!r}" if dec is None else f"text that reads back as {dec!r}"
+    return "unknown:" + _show(x)[:40]
+
+
+def _client_program() -> list:
+    return [
+        ("_HEADER", b"Accept: */*"), ("_PARAMETER", b"a=1"), ("_HEADER", b"Accept: text/html"), ("_HOSTHEADER", b"Host: example.org"),
+        ("_PARAMETER", b"a=2"), ("_PARAMETER", b"b=x=y"),
+        ("BUILD", "metadata"), ("BASE64", True), ("PREPEND", _SAMPLE_BYTES["PREPEND"]), ("APPEND", _SAMPLE_BYTES["APPEND"]), ("NETBIOSU", True),
+        ("HEADER", _SAMPLE_BYTES["HEADER"]),
+        ("BUILD", "output"), ("MASK", True), ("BASE64URL", True), ("NETBIOS", True), ("PARAMETER", _SAMPLE_BYTES["PARAMETER"]),
+    ]
+
+
+def _reference_rendering(program) -> dict:
+    headers, prms, blocks, cur = [], [], collections.OrderedDict(), None
+    for k, v in program:
+        if k in ("_HEADER", "_HOSTHEADER"):
+            a, _s, b = v.decode("latin-1").partition(": ")
+            headers.append((a, b))
+        elif k == "_PARAMETER":
+            a, _s, b = v.decode("latin-1").partition("=")
+            prms.append((a, b))
+        elif k == "BUILD":
+            cur = v
+        elif v is True:
+            blocks.setdefault(cur, []).append(k.lower())
+        else:
+            blocks.setdefault(cur, []).append((k.lower(), v))
+    return {"header": headers, "parameter": prms, "blocks": blocks}
+
+
+def _concrete_list(x, what: str) -> list:
+    if _opaque(x) or x is None:
+        raise Unknown(f"{what} is not a known collection")
+    try:
+        return list(x)
+    except TypeError:
+        raise Unknown(f"{what} is not iterable")
+
+
+def _client_rendering(ctx, setting: str, program) -> dict:
+    """What from_beacon_config does with a client transform program: the receiving block, the pairs it gets per
+    statement name, the data-transform blocks attached to it (name -> steps) and where the receiver is attached.
+    Unknown tests elsewhere in the generator (e.g. on the content of other blocks) must not influence it."""
+    outs = []
+    parents = set()
+    for res in _generate(ctx, [(setting, program)]):
+        if "settings-loop" not in res.flags:
+            raise Unknown("the settings loop of from_beacon_config was not found")
+        o = _client_rendering_path(res)
+        parents.update(o.pop("parent") or [])
+        outs.append(o)
+    if len({_show(sorted(o.items())) for o in outs}) != 1:
+        raise Unknown("the rendering of a fully known program depends on unknown tests")
+    out = outs[0]
+    out["parent"] = sorted(parents)
+    return out
+
+
+def _client_rendering_path(res: _Res) -> dict:
+    if res.raised:
+        return {"raised": res.raised, "parent": None}
+    # the receiver: the options block that is handed data-transform blocks / pairs while this setting is processed
+    recvs = []
+    for ev in _prim_events(res, cls="HttpOptionsBlock"):
+        if ev.recv not in recvs:
+            recvs.append(ev.recv)
+    out = {"raised": None, "receivers": len(recvs), "pairs": {}, "blocks": collections.OrderedDict(), "other": [], "parent": None}
+    if len(recvs) != 1:
+        return out
+    recv = recvs[0]
+    for ev in _prim_events(res, cls="HttpOptionsBlock"):
+        name = _ev_name(ev)
+        if PRIM_ARITY.get(ev.prim) == 2:
+            pairs = [tuple(_concrete_list(p, "a pair")) for p in _concrete_list(_ev_value(ev), "the pair list")]
+            out["pairs"].setdefault(name, []).extend(pairs)
+        elif ev.prim in ATTACH:
+            child = _ev_value(ev)
+            if isinstance(child, _Obj) and child.cls == "DataTransformBlock":
+                steps = child.kwargs.get("steps", child.args[0] if child.args else None)
+                lst = _concrete_list(steps, "the steps of a data-transform block")
+                if name in out["blocks"]:
+                    out["other"].append(f"block {name!r} attached twice")
+                out["blocks"][name] = [tuple(x) if isinstance(x, (list, tuple)) else x for x in lst]
+            else:
+                out["other"].append(f"{ev.prim}({name!r}, {_show(child)[:40]})")
+        else:
+            out["other"].append(f"{ev.prim}({name!r})")
+    out["parent"] = sorted({(p.cls, n) for p, _pr, n in _attachments(res, recv)})
+    return out
+
+
+def _compare_rendering(got: dict, ref: dict, program) -> List[str]:
+    """Differences between an observed client rendering and the reference one (byte arguments compared by what they
+    read back as)."""
+    if got.get("raised"):
+        return [f"generation raises {got['raised']}"]
+    if got["receivers"] != 1:
+        return [f"{got['receivers']} client option blocks receive the program (exactly one expected)"]
+    diffs = []
+    for key in ("header", "parameter"):
+        if got["pairs"].get(key, []) != ref[key]:
+            diffs.append(f"{key} lines {got['pairs'].get(key, [])} (configuration states {ref[key]})")
+    for key in got["pairs"]:
+        if key not in ("header", "parameter"):
+            diffs.append(f"unexpected pair statement {key!r}")
+    if list(got["blocks"]) != list(ref["blocks"]) and sorted(map(str, got["blocks"])) != sorted(map(str, ref["blocks"])):
+        diffs.append(f"data-transform blocks {list(got['blocks'])} (configuration states {list(ref['blocks'])})")
+    for b, steps in ref["blocks"].items():
+        have = got["blocks"].get(b)
+        if have is None:
+            continue
+        shape = [x if isinstance(x, str) else x[0] if isinstance(x, tuple) and x else "?" for x in have]
+        want = [x if isinstance(x, str) else x[0] for x in steps]
+        if shape != want or any(isinstance(h, tuple) != isinstance(w, tuple) for h, w in zip(have, steps)):
+            diffs.append(f"block {b!r} has steps {shape} with arguments {[isinstance(h, tuple) for h in have]} (configuration states {want})")
+    diffs.extend(got["other"])
+    return diffs
+
+
+def _valued_steps(got: dict):
+    for b, steps in (got.get("blocks") or {}).items():
+        for x in steps:
+            if isinstance(x, tuple) and len(x) == 2:
+                yield b, x[0], x[1]
+
+
+def _procinj_rendering(ctx, key: str, prepend: bytes, append: bytes) -> dict:
+    outs = []
+    parents = []
+    for res in _generate(ctx, [(key, [("append", append), ("prepend", prepend)])]):
+        if "settings-loop" not in res.flags:
+            raise Unknown("the settings loop of from_beacon_config was not found")
+        out = {"raised": res.raised, "options": []}
+        for ev in _prim_events(res, cls="StageTransformBlock"):
+            out["options"].append((ev.prim, _ev_name(ev), _ev_value(ev)))
+            for p, _pr, n in _attachments(res, ev.recv):
+                if (p.cls, n) not in parents:
+                    parents.append((p.cls, n))
+        outs.append(out)
+    if len({_show(sorted(o.items())) for o in outs}) != 1:
+        raise Unknown("the rendering of a fully known transform depends on unknown tests")
+    outs[0]["parent"] = parents
+    return outs[0]
 
 
 def r4_r5(ctx):
     f = ctx.repo.func("c2profile.C2Profile.from_beacon_config")
-    req, post = _branch(f, "SETTING_C2_REQUEST"), _branch(f, "SETTING_C2_POSTREQ")
-    if req is None or post is None:
-        ctx.ob("R4", "TAINT", f, "http branches", False, "SETTING_C2_REQUEST / SETTING_C2_POSTREQ branches not found")
-        return
-    sr, sp = _http_summary(ctx, f, req), _http_summary(ctx, f, post)
+    program = _client_program()
+    ref = _reference_rendering(program)
+    rendered = {}
     n = 0
-    for label, summ in (("SETTING_C2_REQUEST", sr), ("SETTING_C2_POSTREQ", sp)):
-        for name, kind, node in summ.get("_valued_nodes", []):
+    for label in ("SETTING_C2_REQUEST", "SETTING_C2_POSTREQ"):
+        try:
+            got = rendered[label] = _client_rendering(ctx, label, program)
+        except Unknown as e:
+            rendered[label] = None
             n += 1
-            ok = kind in ("bytes", "repr")
-            ctx.ob("R4", "TAINT", f, f"{label} valued step {name}", ok,
-                   f"byte argument reaches the data-transform block as `{kind}`: " + ("escape-encoded (bytes through value_to_string / repr(v)[2:-1])" if ok else
-                   "NOT escape-encoded - a backslash, quote+backslash or control byte yields invalid or unfaithful profile text"), node)
-    ctx.rep.count("valued_step_sites", n, floor=2)
-    # process-inject transforms and frame headers
-    for key in ("SETTING_PROCINJ_TRANSFORM_X86", "SETTING_PROCINJ_TRANSFORM_X64"):
-        br = _branch(f, key)
-        if br is None:
-            ctx.ob("R4", "TAINT", f, key, False, "branch not found")
+            ctx.undecided("R4", "TAINT", f, f"{label} valued steps", f"cannot evaluate from_beacon_config on a sample client program: {e}")
             continue
-        loop = [s for s in br.body if isinstance(s, ast.For)]
-        ok = False
-        if loop:
-            v = dotted(loop[0].target.elts[1]) if isinstance(loop[0].target, ast.Tuple) else None
-            handed = {dotted(c.args[1]) for c in ast.walk(br) if isinstance(c, ast.Call) and isinstance(c.func, ast.Attribute) and c.func.attr == "set_option" and len(c.args) == 2
-                      and _c(c.args[0]) in ("prepend", "append")}
-            sets = [s for s in ast.walk(loop[0]) if isinstance(s, ast.Assign) and dotted(s.targets[0]) in handed]
-            ok = bool(sets) and all(_classify_value(ctx, f, s.value, s, v) in ("repr", "bytes") for s in sets)
-        ctx.ob("R4", "TAINT", f, f"{key} arguments", ok, "prepend/append bytes are escape-encoded before set_option" if ok else "prepend/append bytes reach set_option without escaping")
+        found = {}
+        for b, name, x in _valued_steps(got):
+            found.setdefault(name, []).append(x)
+        for name in ("prepend", "append", "header", "parameter"):
+            n += 1
+            if name not in found:
+                ctx.undecided("R4", "TAINT", f, f"{label} valued step {name}", f"the {name} step of the sample program does not reach a data-transform block (see R5)")
+                continue
+            kinds = sorted({_arg_kind(x, _SAMPLE_BYTES[name.upper()]) for x in found[name]})
+            ok = all(k in ("bytes", "escaped") for k in kinds)
+            ctx.ob("R4", "TAINT", f, f"{label} valued step {name}", ok,
+                   f"byte argument {_SAMPLE_BYTES[name.upper()]!r} reaches the data-transform block as {kinds}: " +
+                   ("escape-encoded (raw bytes for the STRING builder, or text that reads back as the same bytes)" if ok else
+                    "NOT escape-encoded - a backslash, quote+backslash or control byte yields invalid or unfaithful profile text"))
+    ctx.rep.count("valued_step_sites", n, floor=2)
+    # process-inject transforms
+    pi = {}
+    for key in ("SETTING_PROCINJ_TRANSFORM_X86", "SETTING_PROCINJ_TRANSFORM_X64"):
+        try:
+            got = pi[key] = _procinj_rendering(ctx, key, _NASTY, b"tail\\")
+        except Unknown as e:
+            pi[key] = None
+            ctx.undecided("R4", "TAINT", f, f"{key} arguments", f"cannot evaluate from_beacon_config on a sample transform: {e}")
+            continue
+        want = {"prepend": _NASTY, "append": b"tail\\"}
+        seen = {}
+        for prim, name, x in got["options"]:
+            if prim == "set_option" and name in want:
+                seen[name] = _arg_kind(x, want[name])
+        ok = not got["raised"] and set(seen) == set(want) and all(k in ("bytes", "escaped") for k in seen.values())
+        ctx.ob("R4", "TAINT", f, f"{key} arguments", ok,
+               "prepend/append bytes are escape-encoded before set_option" if ok else f"prepend/append bytes reach set_option as {seen} (raised={got['raised']}): not escape-encoded or dropped")
     # ---- R5 siblings
-    def norm(s):
-        return {k: v for k, v in s.items() if not k.startswith("_")}
-
-    a, b = norm(sr), norm(sp)
-    def rename(x, old, new):
-        return eval(repr(x).replace(old, new)) if x is not None else x
-    b2 = rename(b, "http_post_client", "http_get_client")
-    diffs = [k for k in sorted(set(a) | set(b2)) if a.get(k) != b2.get(k)]
-    ctx.ob("R5", "AGREE", f, "SETTING_C2_REQUEST ~ SETTING_C2_POSTREQ", not diffs,
-           "the http-get and http-post client branches have equal summaries (decorations, build, flag steps, valued-step sanitiser, emitted blocks)" if not diffs else
-           f"sibling branches differ in {diffs}: " + "; ".join(f"{k}: get={a.get(k)} post={b2.get(k)}" for k in diffs)[:400])
-    x86, x64 = _branch(f, "SETTING_PROCINJ_TRANSFORM_X86"), _branch(f, "SETTING_PROCINJ_TRANSFORM_X64")
-    if x86 is not None and x64 is not None:
-        def summ(br):
-            out = []
-            for s in br.body:
-                t = src(s)
-                if isinstance(s, ast.Assign) and dotted(s.targets[0]) == "steps":
-                    continue
-                out.append(t.replace("transform_x64", "transform_xNN").replace("transform_x86", "transform_xNN"))
-            return out
-        ok = summ(x86) == summ(x64)
-        ctx.ob("R5", "AGREE", f, "PROCINJ_TRANSFORM_X86 ~ X64", ok, "the two process-inject transform branches are equal up to the block name" if ok else "the x86 and x64 process-inject transform branches differ")
+    a, b = rendered.get("SETTING_C2_REQUEST"), rendered.get("SETTING_C2_POSTREQ")
+    for label, got, parent in (("SETTING_C2_REQUEST", a, "HttpGetBlock"), ("SETTING_C2_POSTREQ", b, "HttpPostBlock")):
+        if got is None:
+            continue
+        diffs = _compare_rendering(got, ref, program)
+        if not diffs and got["parent"] != [(parent, "client")]:
+            diffs.append(f"the receiving block is attached as {got['parent']} (required: client of a {parent})")
+        ctx.ob("R5", "AGREE", f, f"{label} rendering", not diffs,
+               "a sample program (repeated headers and parameters, two blocks, flag and valued steps) is rendered statement for statement into the client block" if not diffs else
+               "sample program rendered unfaithfully: " + "; ".join(diffs)[:500])
+    if a is None or b is None:
+        ctx.undecided("R5", "AGREE", f, "SETTING_C2_REQUEST ~ SETTING_C2_POSTREQ", "one of the client branches could not be evaluated")
+    else:
+        def norm(got):
+            if got.get("raised"):
+                return {"raised": got["raised"]}
+            return {"receivers": got["receivers"], "pairs": got["pairs"], "other": got["other"],
+                    "blocks": [(k, [(x[0], _arg_kind(x[1], _SAMPLE_BYTES.get(str(x[0]).upper(), b"?"))) if isinstance(x, tuple) and len(x) == 2 else x for x in v])
+                               for k, v in got["blocks"].items()]}
+        na, nb = norm(a), norm(b)
+        diffs = [k for k in sorted(set(na) | set(nb)) if na.get(k) != nb.get(k)]
+        ctx.ob("R5", "AGREE", f, "SETTING_C2_REQUEST ~ SETTING_C2_POSTREQ", not diffs,
+               "the http-get and http-post client settings render the same program identically (decorations, blocks, flag steps, valued-step escaping)" if not diffs else
+               f"sibling settings differ in {diffs}: " + "; ".join(f"{k}: get={na.get(k)} post={nb.get(k)}" for k in diffs)[:400])
+    x86, x64 = pi.get("SETTING_PROCINJ_TRANSFORM_X86"), pi.get("SETTING_PROCINJ_TRANSFORM_X64")
+    if x86 is None or x64 is None:
+        ctx.undecided("R5", "AGREE", f, "PROCINJ_TRANSFORM_X86 ~ X64", "one of the process-inject transform settings could not be evaluated")
+    else:
+        same = x86["raised"] == x64["raised"] and [(p, nm, _show(x)) for p, nm, x in x86["options"]] == [(p, nm, _show(x)) for p, nm, x in x64["options"]]
+        names = x86["parent"] == [("ProcessInjectBlock", "transform_x86")] and x64["parent"] == [("ProcessInjectBlock", "transform_x64")]
+        ok = same and names
+        ctx.ob("R5", "AGREE", f, "PROCINJ_TRANSFORM_X86 ~ X64", ok,
+               "the two process-inject transform settings render the same transform identically, each under its own block name" if ok else
+               f"the x86 and x64 process-inject transform settings differ: x86={x86['options']} attached {x86['parent']}; x64={x64['options']} attached {x64['parent']}"[:500])
     dns = {}
-    for st in statements(f.node):
-        if isinstance(st, ast.If) and "SETTING_DNS_BEACON_" in src(st.test):
-            import re as _re
-
-            key = _re.search(r"SETTING_DNS_BEACON_(\w+)", src(st.test)).group(1)
-            calls = [c for s in st.body for c in ast.walk(s) if isinstance(c, ast.Call) and isinstance(c.func, ast.Attribute) and c.func.attr == "set_option"]
-            dns[key] = (dotted(calls[0].func.value), _c(calls[0].args[0]), src(calls[0].args[1])) if len(calls) == 1 else None
-    main_loop = [s2 for s2 in f.node.body if isinstance(s2, ast.For)]
-    valv = dotted(main_loop[0].target.elts[1]) if main_loop and isinstance(main_loop[0].target, ast.Tuple) else "value"
-    dnsv = next((dotted(s2.targets[0]) for s2 in statements(f.node) if isinstance(s2, ast.Assign) and isinstance(s2.value, ast.Call) and dotted(s2.value.func) == "DnsBeaconBlock"), "dns_beacon")
-    ok = len(dns) == 6 and all(v is not None and v[0] == dnsv and v[1] == k.lower() and v[2] == valv for k, v in dns.items())
-    ctx.ob("R5", "AGREE", f, "DNS_BEACON_* siblings", ok, f"each DNS subhost setting is emitted under its own lower-cased name: {dns}")
+    unknown = []
+    keys = sorted(k[len("SETTING_DNS_BEACON_"):] for k in _settings_enum(ctx) if k.startswith("SETTING_DNS_BEACON_"))
+    for key in keys:
+        try:
+            per_path = []
+            for res in _generate(ctx, [("SETTING_DNS_BEACON_" + key, "dns.example.org")]):
+                if "settings-loop" not in res.flags:
+                    raise Unknown("the settings loop of from_beacon_config was not found")
+                per_path.append((res.raised, [(ev.recv.cls, ev.prim, _ev_name(ev), _ev_value(ev)) for ev in _prim_events(res, prims=PRIM_ARITY)]))
+            dns[key] = per_path
+        except Unknown as e:
+            unknown.append(f"{key}: {e}")
+    if unknown:
+        ctx.undecided("R5", "AGREE", f, "DNS_BEACON_* siblings", "cannot evaluate from_beacon_config: " + "; ".join(unknown)[:300])
+    else:
+        bad = {k: v for k, v in dns.items() if any(p != (None, [("DnsBeaconBlock", "set_option", k.lower(), "dns.example.org")]) for p in v)}
+        ok = len(dns) >= 6 and not bad
+        ctx.ob("R5", "AGREE", f, "DNS_BEACON_* siblings", ok,
+               f"each of the {len(dns)} DNS subhost settings is emitted under its own lower-cased name into the dns-beacon block" if ok else f"DNS subhost settings not emitted under their own name: {_show(bad)[:400]}")
 
 
 # ---------------------------------------------------------------------------- R6
+def _nonempty_polarity(test: ast.AST, subject: str) -> Optional[bool]:
+    """True: `test` holding means the block expression `subject` has children; False: it means it has none."""
+    want = subject + ".tree.children"
+    if src(test) == want:
+        return True
+    if isinstance(test, ast.Call) and dotted(test.func) in ("len", "bool") and len(test.args) == 1 and src(test.args[0]) == want:
+        return True
+    if isinstance(test, ast.Compare) and len(test.ops) == 1:
+        l, op, r = test.left, test.ops[0], test.comparators[0]
+        for x, y, flip in ((l, r, False), (r, l, True)):
+            if isinstance(x, ast.Call) and dotted(x.func) == "len" and len(x.args) == 1 and src(x.args[0]) == want and isinstance(_c(y), int):
+                k = _c(y)
+                o = type(op)
+                if flip:
+                    o = {ast.Lt: ast.Gt, ast.Gt: ast.Lt, ast.LtE: ast.GtE, ast.GtE: ast.LtE}.get(o, o)
+                if (o is ast.Gt and k == 0) or (o is ast.GtE and k == 1) or (o is ast.NotEq and k == 0):
+                    return True
+                if (o is ast.Eq and k == 0) or (o is ast.Lt and k == 1) or (o is ast.LtE and k == 0):
+                    return False
+            if src(x) == want and isinstance(y, (ast.List, ast.Tuple)) and not y.elts:
+                if isinstance(op, ast.NotEq):
+                    return True
+                if isinstance(op, ast.Eq):
+                    return False
+    return None
+
+
+def _guarded_nonempty(ctx, f, call: ast.Call, child: Optional[ast.AST]) -> bool:
+    if child is None:
+        return False
+    subj = src(child)
+    for _t, pol, node in dominating_conditions(ctx, f, call):
+        p = _nonempty_polarity(node, subj)
+        if p is not None and p == pol:
+            return True
+    return False
+
+
 def r6(ctx):
     f = ctx.repo.func("c2profile.C2Profile.from_beacon_config")
-    main = [s for s in f.node.body if isinstance(s, ast.For)]
-    if len(main) != 1:
-        ctx.ob("R6", "DOM", f, "settings loop", False, f"{len(main)} top-level loops")
-        return
-    idx = f.node.body.index(main[0])
-    epi = f.node.body[idx + 1:]
+    fv = FuncView.of(f.node)
+    attach_calls = []
+    for c in fn_calls(f.node):
+        if isinstance(c.func, ast.Attribute):
+            cls = _block_class(ctx, f, c.func.value)
+            if cls is not None and _primitive_of(ctx, cls, c.func.attr) in ATTACH:
+                attach_calls.append((c, cls, _primitive_of(ctx, cls, c.func.attr)))
     n = 0
-    for st in epi:
-        for c in ast.walk(st):
-            if isinstance(c, ast.Call) and isinstance(c.func, ast.Attribute) and c.func.attr in ATTACH:
-                n += 1
-                ok = c.func.attr == "set_non_empty_config_block"
-                ctx.ob("R6", "DOM", f, f"epilogue {c.func.attr}({src(c.args[0]) if c.args else ''}) on {_block_class(ctx, f, c.func.value)}", ok,
-                       "attached only when non-empty" if ok else "block attached unconditionally: an empty block would be emitted", c)
+    in_loop = []
+    for c, cls, prim in attach_calls:
+        if fv.enclosing(c, (ast.For, ast.AsyncFor, ast.While)) is not None:
+            in_loop.append((c, cls, prim))
+            continue
+        # epilogue: after all settings are processed a block is attached only when it has content
+        n += 1
+        child = _call_arg(c, 1, "config_block")
+        ok = prim == "set_non_empty_config_block" or _guarded_nonempty(ctx, f, c, child)
+        name = _call_arg(c, 0, "option")
+        ctx.ob("R6", "DOM", f, f"epilogue {prim}({src(name) if name is not None else ''}) on {cls}", ok,
+               "attached only when non-empty" if ok else "block attached unconditionally: an empty block would be emitted", c)
     ctx.rep.count("epilogue_attachments", n, floor=8)
     g = ctx.repo.func("c2profile.ConfigBlock.set_non_empty_config_block")
-    calls = [c for c in fn_calls(g.node) if dotted(c.func) == "self.set_config_block"]
-    ok = len(calls) == 1 and guarded_by(ctx, g, calls[0], lambda t: True if src(t) == f"{params(g.node)[2]}.tree.children" else None)
-    ctx.ob("R6", "DOM", g, "if config_block.tree.children", bool(ok), "attaches only when the child has children" if ok else "set_non_empty_config_block does not test the child's children")
-    # attachments inside the loop are guarded by a non-emptiness condition or attach a DataTransformBlock
-    for c in ast.walk(main[0]):
-        if isinstance(c, ast.Call) and isinstance(c.func, ast.Attribute) and c.func.attr == "set_config_block":
-            child = c.args[1] if len(c.args) > 1 else None
-            cls = _block_class(ctx, f, child) if child is not None else None
-            conds = [t for t, pol, n2 in dominating_conditions(ctx, f, c) if pol]
-            main_loop = [s2 for s2 in f.node.body if isinstance(s2, ast.For)]
-            valv = dotted(main_loop[0].target.elts[1]) if main_loop and isinstance(main_loop[0].target, ast.Tuple) else "value"
-            # names whose truthiness decides that something was put into the child block
-            child = dotted(c.args[1]) if len(c.args) > 1 else None
-            fed = set()
+    gp = params(g.node)
+    calls = [c for c in fn_calls(g.node) if isinstance(c.func, ast.Attribute) and c.func.attr == "set_config_block" and dotted(c.func.value) == gp[0]]
+    if len(calls) != 1 or len(gp) < 3:
+        appends = [c for c in fn_calls(g.node) if isinstance(c.func, ast.Attribute) and c.func.attr in ("append", "extend", "insert")]
+        if len(appends) == 1 and len(gp) >= 3:
+            ok = _guarded_nonempty(ctx, g, appends[0], ast.Name(id=gp[2], ctx=ast.Load()))
+            ctx.ob("R6", "DOM", g, "if config_block.tree.children", ok, "attaches only when the child has children" if ok else "set_non_empty_config_block does not test the child's children")
+        else:
+            ctx.undecided("R6", "DOM", g, "if config_block.tree.children", "set_non_empty_config_block neither delegates to set_config_block once nor appends to the tree once: its attachment cannot be located")
+    else:
+        child = _call_arg(calls[0], 1, "config_block")
+        ok = child is not None and dotted(child) == gp[2] and _guarded_nonempty(ctx, g, calls[0], child)
+        ctx.ob("R6", "DOM", g, "if config_block.tree.children", bool(ok), "attaches only when the child has children" if ok else "set_non_empty_config_block does not test the child's children")
+    # attachments inside the settings loop are guarded by a non-emptiness condition or attach a DataTransformBlock
+    for c, cls, prim in in_loop:
+        if prim != "set_config_block":
+            continue
+        child_e = _call_arg(c, 1, "config_block")
+        ccls = _block_class(ctx, f, child_e) if child_e is not None else None
+        # the outermost enclosing loop is the settings loop; its value variable
+        loops_ = [a for a in fv.ancestors(c) if isinstance(a, (ast.For, ast.AsyncFor))]
+        outer = loops_[-1] if loops_ else None
+        valv = dotted(outer.target.elts[1]) if outer is not None and isinstance(outer.target, ast.Tuple) and len(outer.target.elts) == 2 else None
+        # names whose truthiness decides that something was put into the child block
+        child = dotted(child_e) if child_e is not None else None
+        fed = set()
+        for k2 in fn_calls(f.node):
+            if isinstance(k2.func, ast.Attribute) and child is not None and dotted(k2.func.value) == child:
+                for a2 in list(k2.args[1:]) + [kw.value for kw in k2.keywords]:
+                    if dotted(a2):
+                        fed.add(dotted(a2))
+        # ... and names the child's content is derived from: arguments of the call that makes the child, iterables of the
+        # loops (not enclosing the attachment itself) in which the child is filled
+        if child is not None:
+            from csverif.astutil import assignments_to
+            for _st, val in assignments_to(f.node, child):
+                if isinstance(val, ast.Call):
+                    for a2 in list(val.args) + [kw.value for kw in val.keywords]:
+                        if dotted(a2):
+                            fed.add(dotted(a2))
+            own_loops = {id(a) for a in loops_}
             for k2 in fn_calls(f.node):
-                if isinstance(k2.func, ast.Attribute) and dotted(k2.func.value) == child and k2.func.attr in HELPER_ARITY and len(k2.args) > 1 and dotted(k2.args[1]):
-                    fed.add(dotted(k2.args[1]))
-            def _truthy_guard(t):
-                names = {x.strip() for x in t.replace(" and ", " or ").split(" or ")}
-                return valv in names or (bool(fed) and names <= fed | {valv}) 
-            guarded = any(_truthy_guard(t) for t in conds)
-            ok = cls == "DataTransformBlock" or guarded
-            ctx.ob("R6", "DOM", f, f"in-loop set_config_block({src(c.args[0])})", ok,
-                   f"in-loop attachment of {cls}: " + ("a data transform always has its steps/termination children" if cls == "DataTransformBlock" else f"guarded by {conds[-2:]}" if guarded else "not guarded against an empty child"), c)
+                if isinstance(k2.func, ast.Attribute) and dotted(k2.func.value) == child:
+                    for a in fv.ancestors(k2):
+                        if isinstance(a, (ast.For, ast.AsyncFor)) and id(a) not in own_loops and dotted(a.iter):
+                            fed.add(dotted(a.iter))
+        relevant = fed | ({valv} if valv else set())
+
+        def _truthy_guard(node):
+            from csverif.astutil import disjuncts
+            names = [dotted(x) for x in disjuncts(node)]
+            return all(nm is not None and nm in relevant for nm in names)
+
+        conds = [(t, node) for t, pol, node in dominating_conditions(ctx, f, c) if pol]
+        guarded = any(_truthy_guard(node) for _t, node in conds) or _guarded_nonempty(ctx, f, c, child_e)
+        ok = ccls == "DataTransformBlock" or guarded
+        nm = _call_arg(c, 0, "option")
+        ctx.ob("R6", "DOM", f, f"in-loop set_config_block({src(nm) if nm is not None else ''})", ok,
+               f"in-loop attachment of {ccls}: " + ("a data transform always has its steps/termination children" if ccls == "DataTransformBlock" else
+                                                     f"guarded by {[t for t, _n in conds][-2:]}" if guarded else "not guarded against an empty child"), c)
+
+
+# ---------------------------------------------------------------------------- R9 / R8
+def _tree_parts(v):
+    """(name, children) of a `Tree(name, children)` construction observed by the evaluator, else None."""
+    if isinstance(v, _Obj) and v.callee.split(".")[-1] == "Tree":
+        name = v.args[0] if v.args else v.kwargs.get("data")
+        children = v.args[1] if len(v.args) > 1 else v.kwargs.get("children")
+        return name, children
+    return None
+
+
+def _find_tree(v, name: str, depth=0):
+    """The children of the first Tree called `name` inside the tree value v."""
+    tp = _tree_parts(v)
+    if tp is None or depth > 6:
+        return None
+    if tp[0] == name:
+        return tp[1]
+    if isinstance(tp[1], (list, tuple)):
+        for c in tp[1]:
+            r = _find_tree(c, name, depth + 1)
+            if r is not None:
+                return r
+    return None
+
+
+def _dt_statements(ctx, steps_value) -> Tuple[Optional[str], list, list]:
+    """Build DataTransformBlock(steps=steps_value) with the evaluator and read the block's tree: -> (raised, transform
+    statements, termination statements), each statement as (name, number of children)."""
+    init = ctx.repo.func("c2profile.DataTransformBlock.__init__")
+    if not ctx.repo.has_func("c2profile.DataTransformBlock.tree"):
+        raise Unknown("DataTransformBlock.tree is not a method any more")
+    prop = ctx.repo.func("c2profile.DataTransformBlock.tree")
+    results = []
+
+    def run(oracle):
+        it = _Interp(ctx, "c2profile", oracle)
+        me = _Sym(params(init.node)[0], cls="DataTransformBlock")
+        try:
+            it.invoke(init.node, [me, copy.deepcopy(steps_value)], {}, None)
+            tree = it.invoke(prop.node, [me], {}, None)
+        except _Raised as r:
+            return (r.name, None)
+        except (Unknown, _Return, _Break, _Continue):
+            raise
+        except Exception as e:  # a construct the evaluator mishandles: nothing is claimed
+            raise Unknown(f"evaluator failure {type(e).__name__}: {e}"[:120])
+        return (None, tree)
+
+    for raised, tree in _paths(run):
+        if raised:
+            results.append((raised, [], []))
+            continue
+        parts = []
+        for kind in ("steps", "termination"):
+            ch = _find_tree(tree, kind)
+            if not isinstance(ch, (list, tuple)):
+                raise Unknown(f"the `{kind}` children of the block's tree are not a known list")
+            sts = []
+            for c in ch:
+                tp = _tree_parts(c)
+                if tp is None or not isinstance(tp[0], str) or not isinstance(tp[1], (list, tuple)):
+                    raise Unknown("a statement of the block is not a Tree(name, [children]) construction")
+                sts.append((tp[0], len(tp[1])))
+            parts.append(sts)
+        results.append((None, parts[0], parts[1]))
+    if len({repr(r) for r in results}) != 1:
+        raise Unknown("the result depends on unknown tests")
+    return results[0]
 
 
 def r9(ctx, g):
-    """DataTransformBlock.__init__ accepts every step the generator can hand it: each lower-cased opcode name of the
-    transform / recover parsers is routed to add_step or add_termination under a name that is an alias of the matching
-    statement kind and arity - a name no branch accepts is dropped silently and the block no longer parses."""
+    """DataTransformBlock accepts every step the generator can hand it: for each lower-cased opcode name of the transform /
+    recover parsers, the block built from that one step has exactly one statement, in the part (steps / termination)
+    and with the arity the grammar has for that alias - a name no branch accepts is dropped silently and the block no
+    longer parses."""
     f = ctx.repo.func("c2profile.DataTransformBlock.__init__")
-    loops = [s for s in statements(f.node) if isinstance(s, ast.For)]
-    if len(loops) != 1 or not dotted(loops[0].target):
-        ctx.ob("R9", "VOCAB", f, "steps loop", False, f"expected one `for <option> in steps` loop, found {len(loops)}", f.node)
-        return
-    opt = dotted(loops[0].target)
     tr, te = aliases_of(g, ["transform_statement"]), aliases_of(g, ["termination_statement"])
-
-    def emit(c, env, out):
-        if isinstance(c.func, ast.Attribute) and c.func.attr in ("add_step", "add_termination") and len(c.args) == 2:
-            try:
-                name = str_eval(c.args[0], env)
-            except Unknown:
-                name = "?" + src(c.args[0])
-            out.append((c.func.attr, name, 0 if is_const(c.args[1], None) else 1))
-
     flags = sorted({n.lower() for n in tables.STEPS_NO_ARG} | {n.lower() for n, has in tables.RECOVER_STEPS.items() if not has})
     valued = sorted({n.lower() for n in tables.STEPS_LEN_ARG if not n.startswith("_")} | {n.lower() for n, has in tables.RECOVER_STEPS.items() if has})
     n = 0
-    for name, env, ar in [(x, {opt: x}, 0) for x in flags] + [(x, {opt: (x, "v")}, 1) for x in valued]:
-        out = []
-        _simulate_env(loops[0].body, dict(env), out, emit)
-        ok = len(out) == 1
-        detail = f"{name!r} ({'flag' if ar == 0 else 'valued'}) -> {out}"
-        if ok:
-            m, emitted, got_ar = out[0]
-            tab = tr if m == "add_step" else te
-            ok = got_ar == ar and emitted in tab and ar in tab[emitted]
-            detail += f"; {'transform' if m == 'add_step' else 'termination'} alias {emitted!r} with {ar} argument(s) in the grammar={ok}"
-        else:
-            detail += " (exactly one add_step/add_termination expected: the step is dropped or duplicated)"
-        ctx.ob("R9", "VOCAB", f, f"step {name}", ok, detail, loops[0])
+    for name, item, ar in [(x, x, 0) for x in flags] + [(x, (x, "v"), 1) for x in valued]:
         n += 1
+        try:
+            raised, steps, term = _dt_statements(ctx, [item])
+        except Unknown as e:
+            ctx.undecided("R9", "VOCAB", f, f"step {name}", f"cannot evaluate DataTransformBlock(steps=[{item!r}]): {e}")
+            continue
+        out = [("transform", a, b) for a, b in steps] + [("termination", a, b) for a, b in term]
+        ok = not raised and len(out) == 1
+        detail = f"{name!r} ({'flag' if ar == 0 else 'valued'}) -> " + (f"raises {raised}" if raised else str(out))
+        if ok:
+            kind, emitted, got_ar = out[0]
+            tab = tr if kind == "transform" else te
+            ok = got_ar == ar and emitted in tab and ar in tab[emitted]
+            detail += f"; {kind} alias {emitted!r} with {ar} argument(s) in the grammar={ok}"
+        else:
+            detail += " (exactly one transform/termination statement expected: the step is dropped or duplicated)"
+        ctx.ob("R9", "VOCAB", f, f"step {name}", ok, detail)
     ctx.rep.count("builder_step_names", n, floor=10)
 
 
@@ -627,14 +2195,53 @@ def r8(ctx):
     legal), and the two siblings agree."""
     a = ctx.repo.func("c2profile.DataTransformBlock.add_step")
     b = ctx.repo.func("c2profile.DataTransformBlock.add_termination")
+    samples = [None, "", "x", b"", b"\\\x00"]
     shapes = {}
-    for g in (a, b):
-        val = params(g.node)[2]
-        ifs = [s2 for s2 in statements(g.node) if isinstance(s2, ast.If)]
-        guard = src(ifs[0].test) if len(ifs) == 1 else None
-        ok = guard == f"{val} is not None"
-        ctx.ob("R8", "AGREE", g, "argument attached iff not None", ok, f"guard `{guard}` (required `{val} is not None`: an empty argument still needs its string child, otherwise the text does not parse)")
-        body = [src(s2).replace("self.steps", "self.LIST").replace("self.termination", "self.LIST") for s2 in statements(g.node) if not isinstance(s2, ast.Expr) or not isinstance(s2.value, ast.Constant)]
-        shapes[g.qualname] = body
-    vals = list(shapes.values())
-    ctx.ob("R8", "AGREE", a, "add_step ~ add_termination", vals[0] == vals[1], "the two builders are equal up to the list they append to" if vals[0] == vals[1] else f"siblings differ: {shapes}")
+    for gfn in (a, b):
+        obs = []
+        bad = []
+        unknown = None
+        for v in samples:
+            def binding(it, v=v):
+                return [_Sym(params(gfn.node)[0], cls="DataTransformBlock"), "stepname", v]
+            try:
+                paths = _run_func(ctx, gfn, binding)
+            except Unknown as e:
+                unknown = str(e)
+                break
+            for res in paths:
+                # the statement: the one Tree handed to a collection of the block itself
+                adds = [ev for ev in res.events if ev.attr in ("append", "extend", "insert", "add") and isinstance(_root(ev.recv), _Sym) and _root(ev.recv).cls]
+                trees = [x for ev in adds for x in ev.args if _tree_parts(x) is not None]
+                if res.raised or len(adds) != 1 or len(trees) != 1:
+                    unknown = f"for argument {v!r} the method " + (f"raises {res.raised}" if res.raised else f"does not add exactly one Tree to a collection of the block ({adds})")
+                    break
+                name, children = _tree_parts(trees[0])
+                if not isinstance(children, (list, tuple)):
+                    unknown = "the children of the statement are not a known list"
+                    break
+                attached = len(children)
+                want = 0 if v is None else 1
+                if attached != want or name != "stepname":
+                    bad.append(f"argument {v!r} -> statement {name!r} with {attached} argument child(ren) (required {want})")
+                obs.append((repr(v), _path(adds[0].recv).split(".", 1)[-1], _show(trees[0])))
+            if unknown:
+                break
+        if unknown:
+            ctx.undecided("R8", "AGREE", gfn, "argument attached iff not None", f"cannot locate the statement {gfn.qualname} builds: {unknown}")
+            shapes[gfn.qualname] = None
+            continue
+        ctx.ob("R8", "AGREE", gfn, "argument attached iff not None", not bad,
+               "the statement gets its string child exactly when an argument is given (None: none; empty str/bytes: one)" if not bad else
+               "; ".join(bad)[:400] + " (an empty argument still needs its string child, otherwise the text does not parse)")
+        shapes[gfn.qualname] = obs
+    va, vb = shapes.get(a.qualname), shapes.get(b.qualname)
+    if va is None or vb is None:
+        ctx.undecided("R8", "AGREE", a, "add_step ~ add_termination", "one of the two builders could not be evaluated")
+        return
+    same = [(x[0], x[2]) for x in va] == [(x[0], x[2]) for x in vb]
+    distinct = {x[1] for x in va}.isdisjoint({x[1] for x in vb})
+    ok = same and distinct
+    ctx.ob("R8", "AGREE", a, "add_step ~ add_termination", ok,
+           "the two builders build the same statement and differ only in the list they append to" if ok else
+           f"siblings differ: add_step {va[:3]} add_termination {vb[:3]}; distinct lists={distinct}"[:500])
